@@ -273,41 +273,45 @@ Qed.
 
 (* ---- frame lemmas ---- *)
 Lemma writer_ok_frame s s' o o' w wr :
-  (forall h i, held (dc s) h i -> hd o h = HWriter w -> held (dc s') h i /\ hd o' h = HWriter w) ->
+  (forall stg h i, w_ps wr = PStage stg h i -> held (dc s) h i -> held (dc s') h i) ->
+  (forall stg h i, w_ps wr = PStage stg h i -> hd o h = HWriter w -> hd o' h = HWriter w) ->
   (forall i k, nth_error (keys (dc s)) i = Some k -> nth_error (keys (dc s')) i = Some k) ->
   (forall k v, committed s k v -> committed s' k v) ->
-  (forall b, bo o b = BWriter w -> bo o' b = BWriter w /\ nth_error (bufs s') b = nth_error (bufs s) b) ->
+  (forall b, w_buf wr = Some b -> w_status wr = WOpen -> bo o b = BWriter w ->
+             bo o' b = BWriter w /\ nth_error (bufs s') b = nth_error (bufs s) b) ->
   writer_ok s o w wr -> writer_ok s' o' w wr.
 Proof.
-  intros Hh Hk Hc Hb (Hs & Hr & Ho). split; [|split].
-  - unfold stage_ok in *. destruct (w_ps wr) as [|stg h i]; [exact I|].
-    destruct Hs as (H1 & H2 & H3 & H4 & H5 & H6). destruct (Hh _ _ H1 H2) as [H1' H2'].
-    repeat split; auto; apply H5; auto.
+  intros Hh Hhd Hk Hc Hb (Hs & Hr & Ho). split; [|split].
+  - unfold stage_ok in *. destruct (w_ps wr) as [|stg h i] eqn:Hps; [exact I|].
+    destruct Hs as (H1 & H2 & H3 & H4 & H5 & H6).
+    repeat split; eauto; apply H5; auto.
   - auto.
   - intros Hop. destruct (Ho Hop) as (A & B & C). split; [exact A|]. split; [exact B|].
-    destruct (w_buf wr) as [b|]; [|exact C]. destruct C as (C1 & C2 & C3). destruct (Hb _ C1) as [D1 D2].
+    destruct (w_buf wr) as [b|]; [|exact C]. destruct C as (C1 & C2 & C3). destruct (Hb _ eq_refl Hop C1) as [D1 D2].
     split; [exact D1|]. split; [rewrite D2; exact C2|exact C3].
 Qed.
 
 Lemma reader_ok_frame s s' o o' r rd :
   (forall k v, committed s k v -> committed s' k v) ->
-  (forall h i, held (dc s) h i -> hd o h = HReader r -> held (dc s') h i /\ hd o' h = HReader r) ->
-  (forall h j, held (fc s) h j -> hf o h = HReader r -> held (fc s') h j /\ hf o' h = HReader r) ->
+  (forall b len h i, r_kind rd = RBuf b len h -> held (dc s) h i -> held (dc s') h i) ->
+  (forall b len h, r_kind rd = RBuf b len h -> hd o h = HReader r -> hd o' h = HReader r) ->
+  (forall f h j, r_kind rd = RFd f h -> held (fc s) h j -> held (fc s') h j) ->
+  (forall f h, r_kind rd = RFd f h -> hf o h = HReader r -> hf o' h = HReader r) ->
   (forall i b, nth_error (dval s) i = Some b -> nth_error (dval s') i = Some b) ->
   (forall j f, nth_error (fval s) j = Some f -> nth_error (fval s') j = Some f) ->
   (forall b len h, r_kind rd = RBuf b len h -> nth_error (bufs s') b = nth_error (bufs s) b) ->
   (forall f k v, (exists h, r_kind rd = RFd f h) \/ (exists c, r_kind rd = ROwn f c) ->
        fd_good (fds s) (writers s) f k v -> fd_good (fds s') (writers s') f k v) ->
-  (forall f, fo o f = FReader r -> fo o' f = FReader r) ->
+  (forall f c, r_kind rd = ROwn f c -> fo o f = FReader r -> fo o' f = FReader r) ->
   reader_ok s o r rd -> reader_ok s' o' r rd.
 Proof.
-  intros Hc Hd Hf Hdv Hfv Hb Hg Hfo (Hcm & Hk). split; [auto|].
+  intros Hc Hd Hhd Hf Hhf Hdv Hfv Hb Hg Hfo (Hcm & Hk). split; [auto|].
   destruct (r_kind rd) as [b len h|f h|f c] eqn:K.
-  - destruct Hk as (i & H1 & H2 & H3 & H4 & H5). destruct (Hd _ _ H1 H2) as [H1' H2'].
-    exists i. repeat split; auto. rewrite (Hb b len h eq_refl). exact H4.
-  - destruct Hk as (j & H1 & H2 & H3 & H4). destruct (Hf _ _ H1 H2) as [H1' H2'].
-    exists j. repeat split; auto. apply Hg; [left; eauto|exact H4].
-  - destruct Hk as (H1 & H2). split; [auto|]. apply Hg; [right; eauto|exact H2].
+  - destruct Hk as (i & H1 & H2 & H3 & H4 & H5).
+    exists i. repeat split; eauto; try (rewrite (Hb b len h eq_refl); exact H4).
+  - destruct Hk as (j & H1 & H2 & H3 & H4).
+    exists j. repeat split; eauto; try (apply Hg; [left; eauto|exact H4]).
+  - destruct Hk as (H1 & H2). split; [eauto|]. apply Hg; [right; eauto|exact H2].
 Qed.
 
 Lemma committed_ext s s' k v : wext (writers s) (writers s') -> committed s k v -> committed s' k v.
@@ -332,7 +336,7 @@ Proof.
   destruct Jo. constructor; try assumption.
   - intros i k b A B C. destruct (j_val0 i k b A B C) as (P & v & Q1 & Q2). split; [exact P|]. exists v. split; [exact Q1|auto].
   - intros w wr H. simpl in H. apply nth_upd_cases in H. destruct H as [(-> & -> & _)|[Hne H]]; [exact Hok|].
-    eapply writer_ok_frame; [| | | |apply j_w0; exact H]; auto.
+    eapply writer_ok_frame; [| | | | |apply j_w0; exact H]; auto.
   - intros k w H. simpl in H. destruct (Hd _ _ H) as [Hin|(-> & -> & Hren)].
     + destruct (j_dir0 _ _ Hin) as (wr & A & B & C). destruct (E _ _ A) as (wr2 & A2 & B2 & _ & D2).
       exists wr2. split; [exact A2|]. split; [congruence|]. apply D2; exact C.
@@ -341,7 +345,7 @@ Proof.
     exists wr2. split; [exact A2|apply D2; exact B].
   - intros j k f A B C. destruct (j_fval0 j k f A B C) as (P & w & wr & Q1 & Q2 & Q3). split; [exact P|].
     destruct (E _ _ Q2) as (wr2 & A2 & B2 & _). exists w, wr2. repeat split; auto; congruence.
-  - intros r rd A B. eapply reader_ok_frame; [| | | | | | | |apply j_r0; eauto]; auto.
+  - intros r rd A B. eapply reader_ok_frame; [| | | | | | | | | |apply j_r0; eauto]; auto.
     intros f k v _. apply fd_good_ext. exact E.
 Qed.
 
@@ -358,7 +362,7 @@ Proof.
   rewrite set_dir_same. pose proof (j_w _ _ Jo _ _ Hw) as Hok.
   assert (E : wext (writers s) (R.upd (writers s) w (wr_close wr))) by (eapply wext_upd; eauto).
   change (writer_ok (set_w s w (wr_close wr)) o w wr).
-  eapply writer_ok_frame; [| | | |exact Hok]; auto.
+  eapply writer_ok_frame; [| | | | |exact Hok]; auto.
   intros k v. apply committed_ext. exact E.
 Qed.
 
@@ -390,15 +394,17 @@ Proof.
   pose proof (j_w _ _ Jo _ _ Hw) as (Hs & Hr & Ho). unfold stage_ok in Hs. rewrite Hps in Hs.
   destruct Hs as (S1 & S2 & S3 & S4 & S5 & _). destruct (S5 eq_refl) as [Hfile Hren].
   destruct (held_value s o h i _ Jo S1 S4) as (b & v & Hb & Hbo & Hv & Hcm & Hcb).
-  rewrite <- (set_dir_same s) at 1. eapply J_upd_writer; eauto.
-  - simpl. intros _. auto.
+  rewrite <- (set_dir_same s) at 1.
+  eapply (J_upd_writer s o w wr); [exact Jo|exact Hw|reflexivity| | | |].
+  - simpl. auto.
   - simpl. rewrite Hren. discriminate.
+  - auto.
   - rewrite set_dir_same.
     assert (E : wext (writers s) (R.upd (writers s) w (wr_ps (wr_file wr (w_file wr ++ cached_bytes s i)) (PStage 1 h i)))).
     { eapply wext_upd; eauto; simpl; auto. rewrite Hren. discriminate. }
     split; [|split].
     + unfold stage_ok. simpl. repeat split; auto; try discriminate.
-      intros _. rewrite Hfile, Hcb. simpl. eapply committed_ext; eauto.
+      intros _. eapply committed_ext; [exact E|]. rewrite Hfile, Hcb. exact Hcm.
     + simpl. rewrite Hren. discriminate.
     + simpl. rewrite S3. discriminate.
 Qed.
@@ -409,9 +415,11 @@ Proof.
   destruct (w_ps wr) as [|stg h i] eqn:Hps; [exact Jo|]. destruct stg as [|stg]; [|exact Jo].
   pose proof (j_w _ _ Jo _ _ Hw) as (Hs & Hr & Ho). unfold stage_ok in Hs. rewrite Hps in Hs.
   destruct Hs as (S1 & S2 & S3 & S4 & S5 & _). destruct (S5 eq_refl) as [Hfile Hren].
-  rewrite <- (set_dir_same s) at 1. eapply J_upd_writer; eauto.
-  - simpl. intros _. auto.
+  rewrite <- (set_dir_same s) at 1.
+  eapply (J_upd_writer s o w wr); [exact Jo|exact Hw|reflexivity| | | |].
+  - simpl. auto.
   - simpl. rewrite Hren. discriminate.
+  - auto.
   - rewrite set_dir_same. split; [|split].
     + unfold stage_ok. simpl. repeat split; auto; discriminate.
     + simpl. rewrite Hren. discriminate.
@@ -426,7 +434,7 @@ Proof.
   destruct Hs as (S1 & S2 & S3 & S4 & _ & S6). specialize (S6 eq_refl).
   assert (E : wext (writers s) (R.upd (writers s) w (wr_ps (wr_renamed wr) (PStage 2 h i)))).
   { eapply wext_upd; eauto; simpl; auto. }
-  eapply J_upd_writer; eauto.
+  eapply (J_upd_writer s o w wr); [exact Jo|exact Hw|reflexivity| | | |].
   - simpl. auto.
   - simpl. auto.
   - intros k w' [Hin|Hin]; [|left; exact Hin]. inv Hin. right. auto.
@@ -434,4 +442,1497 @@ Proof.
     + unfold stage_ok. simpl. repeat split; auto; discriminate.
     + simpl. intros _. eapply committed_ext; [|exact S6]. exact E.
     + simpl. rewrite S3. discriminate.
+Qed.
+
+Lemma bowner_eq_dec (a b : bowner) : {a = b} + {a <> b}.
+Proof. decide equality; apply Nat.eq_dec. Qed.
+Lemma opt_bytes_eq_dec (a b : option bytes) : {a = b} + {a <> b}.
+Proof. decide equality. apply list_eq_dec. apply N.eq_dec. Qed.
+
+(* an op that changes buffers / the pool / buffer ownership and the writer table (one writer w0 rewritten or appended) *)
+Lemma J_chg s o s' bo' w0 :
+  J s o ->
+  dc s' = dc s -> dval s' = dval s -> fc s' = fc s -> fval s' = fval s -> fds s' = fds s -> dir s' = dir s ->
+  readers s' = readers s ->
+  wext (writers s) (writers s') ->
+  (forall w wr', nth_error (writers s') w = Some wr' -> w <> w0 -> nth_error (writers s) w = Some wr') ->
+  (forall wr', nth_error (writers s') w0 = Some wr' -> writer_ok s' (mkOwn bo' (fo o) (hd o) (hf o)) w0 wr') ->
+  (forall b, nth_error (bufs s') b <> nth_error (bufs s) b \/ bo' b <> bo o b ->
+     (forall i k, nth_error (keys (dc s)) i = Some k -> R.callbacks (dc s) i = 0 -> nth_error (dval s) i <> Some b) /\
+     (forall w wr, w <> w0 -> nth_error (writers s) w = Some wr -> w_status wr = WOpen -> w_buf wr <> Some b)) ->
+  (NoDup (pool s') /\ forall b, In b (pool s') -> bo' b = BFree /\ nth_error (bufs s') b = Some []) ->
+  J s' (mkOwn bo' (fo o) (hd o) (hf o)).
+Proof.
+  intros Jo Edc Edv Efc Efv Efd Edir Erd E Hoth Hw0 Hpriv Hpool.
+  assert (Hcm : forall k v, committed s k v -> committed s' k v) by (intros k v; apply committed_ext; exact E).
+  assert (Hsame : forall b, (forall i k, nth_error (keys (dc s)) i = Some k -> R.callbacks (dc s) i = 0 -> nth_error (dval s) i <> Some b) \/
+                            (nth_error (bufs s') b = nth_error (bufs s) b /\ bo' b = bo o b)).
+  { intros b. destruct (bowner_eq_dec (bo' b) (bo o b)) as [E1|E1].
+    - destruct (opt_bytes_eq_dec (nth_error (bufs s') b) (nth_error (bufs s) b)) as [E2|E2]; [right; auto|].
+      left. apply (Hpriv b). left. exact E2.
+    - left. apply (Hpriv b). right. exact E1. }
+  destruct Jo. constructor; simpl; rewrite ?Edc, ?Edv, ?Efc, ?Efv, ?Efd, ?Edir, ?Erd; try assumption.
+  - intros i k b A B C. destruct (j_val0 i k b A B C) as (P & v & Q1 & Q2).
+    destruct (Hsame b) as [Hn|[H1 H2]]; [exfalso; eapply Hn; eauto|].
+    rewrite H1, H2. split; [exact P|]. exists v. auto.
+  - intros w wr' H. destruct (Nat.eq_dec w w0) as [->|Hne]; [apply Hw0; exact H|].
+    pose proof (Hoth _ _ H Hne) as H'. eapply writer_ok_frame; [| | | | |apply j_w0; exact H'].
+    + rewrite Edc. auto.
+    + auto.
+    + rewrite Edc. auto.
+    + exact Hcm.
+    + intros b Hb Hop Hbo. simpl.
+      destruct (bowner_eq_dec (bo' b) (bo o b)) as [E1|E1].
+      * destruct (opt_bytes_eq_dec (nth_error (bufs s') b) (nth_error (bufs s) b)) as [E2|E2]; [split; congruence|].
+        exfalso. destruct (Hpriv b (or_introl E2)) as [_ Hp]. eapply Hp; eauto.
+      * exfalso. destruct (Hpriv b (or_intror E1)) as [_ Hp]. eapply Hp; eauto.
+  - intros k w H. destruct (j_dir0 _ _ H) as (wr & A & B & C). destruct (E _ _ A) as (wr2 & A2 & B2 & _ & D2).
+    exists wr2. split; [exact A2|]. split; [congruence|]. apply D2; exact C.
+  - intros f w op H. destruct (j_fds0 _ _ _ H) as (wr & A & B). destruct (E _ _ A) as (wr2 & A2 & _ & _ & D2).
+    exists wr2. split; [exact A2|apply D2; exact B].
+  - intros j k f A B C. destruct (j_fval0 j k f A B C) as (P & w & wr & Q1 & Q2 & Q3). split; [exact P|].
+    destruct (E _ _ Q2) as (wr2 & A2 & B2 & _). exists w, wr2. repeat split; auto; congruence.
+  - intros r rd A B. pose proof (j_r0 r rd A B) as Hok.
+    eapply reader_ok_frame; [| | | | | | | | | |exact Hok]; simpl; rewrite ?Edc, ?Edv, ?Efc, ?Efv, ?Efd; auto.
+    + intros b len h K. destruct Hok as (_ & Hk). rewrite K in Hk. destruct Hk as (i & H1 & H2 & H3 & H4 & H5).
+      destruct (Hsame b) as [Hn|[H1' _]]; [|exact H1'].
+      exfalso. assert (Hlt : i < length (R.ents (dc s))) by (eapply held_lt; eauto).
+      destruct (nth_error (keys (dc s)) i) as [k|] eqn:Hk.
+      * eapply Hn; eauto. eapply held_unfin; eauto.
+      * apply nth_error_None in Hk. rewrite keys_length in Hk. lia.
+    + intros f k v _. apply fd_good_ext. exact E.
+Qed.
+
+Lemma active_open wr : w_active wr = true -> w_status wr = WOpen.
+Proof. unfold w_active. destruct (w_status wr); auto; discriminate. Qed.
+
+(* a buffer owned by a writer, by the pool, or not yet allocated is referenced by no cached value and no other writer *)
+Lemma priv_of_owner s o b w0 : J s o ->
+  (bo o b = BWriter w0 \/ bo o b = BFree \/ nth_error (bufs s) b = None) ->
+  (forall i k, nth_error (keys (dc s)) i = Some k -> R.callbacks (dc s) i = 0 -> nth_error (dval s) i <> Some b) /\
+  (forall w wr, w <> w0 -> nth_error (writers s) w = Some wr -> w_status wr = WOpen -> w_buf wr <> Some b).
+Proof.
+  intros Jo Hown. split.
+  - intros i k A B C. destruct (j_val _ _ Jo i k b A B C) as (P & v & Q & _).
+    destruct Hown as [H|[H|H]]; congruence.
+  - intros w wr Hne A B C. destruct (j_w _ _ Jo _ _ A) as (_ & _ & Ho). destruct (Ho B) as (_ & _ & D).
+    rewrite C in D. destruct D as (D1 & D2 & _). destruct Hown as [H|[H|H]]; congruence.
+Qed.
+
+Lemma J_write s o w bs : J s o -> J (do_write s w bs) o.
+Proof.
+  intros Jo. unfold do_write. destruct (nth_error (writers s) w) as [wr|] eqn:Hw; [|exact Jo].
+  destruct (w_active wr) eqn:Hact; [|exact Jo]. pose proof (active_open _ Hact) as Hop.
+  pose proof (j_w _ _ Jo _ _ Hw) as (Hs & Hr & Ho). destruct (Ho Hop) as (Hren & Hps & Hb).
+  destruct (w_buf wr) as [b|] eqn:Hbuf.
+  - destruct Hb as (B1 & B2 & B3).
+    assert (Hlt : b < length (bufs s)) by (eapply RP.nth_some_lt; eauto).
+    assert (Hbuf_at : buf_at s b = w_acc wr) by (unfold buf_at; apply nth_of_nth_error; exact B2).
+    replace o with (mkOwn (bo o) (fo o) (hd o) (hf o)) by (destruct o; reflexivity).
+    eapply (J_chg s o _ (bo o) w); try reflexivity; [exact Jo| | | | |].
+    + simpl. eapply wext_upd; eauto; simpl; auto; rewrite ?Hop, ?Hren; discriminate.
+    + simpl. intros w' wr' H Hne. rewrite RP.nth_upd_ne in H by auto. exact H.
+    + simpl. intros wr' H. rewrite RP.nth_upd_eq in H by (eapply RP.nth_some_lt; eauto). inv H.
+      split; [|split].
+      * unfold stage_ok. simpl. rewrite Hps. exact I.
+      * simpl. rewrite Hren. discriminate.
+      * simpl. intros _. split; [exact Hren|]. split; [exact Hps|]. rewrite Hbuf. split; [exact B1|].
+        split; [|exact B3]. rewrite RP.nth_upd_eq by exact Hlt. rewrite Hbuf_at. reflexivity.
+    + simpl. intros b' [Hc|Hc]; [|congruence].
+      destruct (Nat.eq_dec b' b) as [->|Hne]; [|rewrite RP.nth_upd_ne in Hc by auto; congruence].
+      eapply priv_of_owner; eauto.
+    + simpl. destruct (j_pool _ _ Jo) as [Hnd Hp]. split; [exact Hnd|].
+      intros b' Hin. destruct (Hp _ Hin) as [P1 P2]. split; [exact P1|].
+      rewrite RP.nth_upd_ne; [exact P2|]. intros ->. congruence.
+  - rewrite <- (set_dir_same s) at 1.
+    eapply (J_upd_writer s o w wr); [exact Jo|exact Hw|reflexivity| | | |].
+    + rewrite Hop. discriminate.
+    + rewrite Hren. discriminate.
+    + auto.
+    + rewrite set_dir_same. split; [|split].
+      * unfold stage_ok. simpl. rewrite Hps. exact I.
+      * simpl. rewrite Hren. discriminate.
+      * simpl. intros _. split; [exact Hren|]. split; [exact Hps|]. rewrite Hbuf. rewrite Hb. reflexivity.
+Qed.
+
+Lemma own_eta o : mkOwn (bo o) (fo o) (hd o) (hf o) = o.
+Proof. destruct o; reflexivity. Qed.
+
+Lemma nth_app_other {A} (l : list A) x n : n <> length l -> nth_error (l ++ [x]) n = nth_error l n.
+Proof.
+  intros Hne. destruct (Nat.lt_ge_cases n (length l)) as [Hlt|Hge].
+  - apply nth_error_app1. exact Hlt.
+  - assert (H1 : nth_error l n = None) by (apply nth_error_None; lia). rewrite H1.
+    apply nth_error_None. rewrite app_length. simpl. lia.
+Qed.
+
+Lemma remove1_in b l x : In x (remove1 b l) -> In x l.
+Proof. induction l as [|a l IH]; simpl; [tauto|]. destruct (Nat.eqb_spec a b); simpl; intros H; [auto|]. destruct H; auto. Qed.
+Lemma remove1_nodup b l : NoDup l -> NoDup (remove1 b l) /\ ~ In b (remove1 b l).
+Proof.
+  induction l as [|a l IH]; simpl; intros H; [split; [constructor|tauto]|]. inv H.
+  destruct (Nat.eqb_spec a b) as [->|Hne]; [split; assumption|].
+  destruct (IH H3) as [N1 N2]. split.
+  - constructor; [|exact N1]. intros Hin. apply H2. eapply remove1_in; eauto.
+  - simpl. intros [E|Hin]; [congruence|tauto].
+Qed.
+
+Lemma J_abort s o w : J s o -> exists o', J (do_abort s w) o'.
+Proof.
+  intros Jo. unfold do_abort. destruct (nth_error (writers s) w) as [wr|] eqn:Hw; [|eauto].
+  destruct (w_active wr) eqn:Hact; [|eauto]. pose proof (active_open _ Hact) as Hop.
+  pose proof (j_w _ _ Jo _ _ Hw) as (Hs & Hr & Ho). destruct (Ho Hop) as (Hren & Hps & Hb).
+  destruct (w_buf wr) as [b|] eqn:Hbuf.
+  - destruct Hb as (B1 & B2 & B3).
+    assert (Hlt : b < length (bufs s)) by (eapply RP.nth_some_lt; eauto).
+    exists (mkOwn (fun x => if Nat.eqb x b then BFree else bo o x) (fo o) (hd o) (hf o)).
+    eapply (J_chg s o _ _ w); try reflexivity; [exact Jo| | | | |].
+    + simpl. eapply wext_upd; eauto; simpl; auto; rewrite ?Hop, ?Hren; discriminate.
+    + simpl. intros w' wr' H Hne. rewrite RP.nth_upd_ne in H by auto. exact H.
+    + simpl. intros wr' H. rewrite RP.nth_upd_eq in H by (eapply RP.nth_some_lt; eauto). inv H.
+      split; [|split].
+      * unfold stage_ok. simpl. rewrite Hps. exact I.
+      * simpl. rewrite Hren. discriminate.
+      * simpl. discriminate.
+    + simpl. intros b' Hc.
+      destruct (Nat.eqb_spec b' b) as [Eb|Hne]; [subst b'|]; [|idtac]; [eapply priv_of_owner; eauto|].
+      rewrite RP.nth_upd_ne in Hc by auto. destruct Hc; congruence.
+    + simpl. destruct (j_pool _ _ Jo) as [Hnd Hp]. split.
+      * constructor; [|exact Hnd]. intros Hin. destruct (Hp _ Hin). congruence.
+      * intros b' [<-|Hin].
+        -- rewrite Nat.eqb_refl. split; [reflexivity|]. apply RP.nth_upd_eq. exact Hlt.
+        -- destruct (Hp _ Hin) as [P1 P2]. destruct (Nat.eqb_spec b' b) as [Eb|Hne]; [subst b'|]; [|idtac]; [congruence|].
+           split; [exact P1|]. rewrite RP.nth_upd_ne by auto. exact P2.
+  - exists o. rewrite <- (set_dir_same s) at 1.
+    eapply (J_upd_writer s o w wr); [exact Jo|exact Hw|reflexivity| | | |].
+    + rewrite Hop. discriminate.
+    + rewrite Hren. discriminate.
+    + auto.
+    + rewrite set_dir_same. split; [|split].
+      * unfold stage_ok. simpl. rewrite Hps. exact I.
+      * simpl. rewrite Hren. discriminate.
+      * simpl. discriminate.
+Qed.
+
+Lemma new_writer_ok s' o' w k ob :
+  match ob with Some b => bo o' b = BWriter w /\ nth_error (bufs s') b = Some [] | None => True end ->
+  writer_ok s' o' w (mkW k ob [] false [] WOpen PNone false).
+Proof.
+  intros H. split; [exact I|]. split; [simpl; discriminate|]. simpl. intros _. split; [reflexivity|]. split; [reflexivity|].
+  destruct ob as [b|]; [|reflexivity]. destruct H. auto.
+Qed.
+
+Lemma J_add s o k d p : J s o -> exists o', J (fst (do_add s k d p)) o'.
+Proof.
+  intros Jo. unfold do_add. set (w0 := length (writers s)).
+  assert (Hoth : forall ws x w (wr' : writer), nth_error (ws ++ [x]) w = Some wr' -> w <> length ws -> nth_error ws w = Some wr').
+  { intros ws x w wr' H Hne. rewrite nth_app_other in H by exact Hne. exact H. }
+  destruct d.
+  - exists o. simpl. rewrite <- (own_eta o).
+    eapply (J_chg s o _ (bo o) w0); try reflexivity; [exact Jo| | | | |].
+    + simpl. apply wext_app.
+    + simpl. intros w wr' H Hne. eapply Hoth; eauto.
+    + simpl. intros wr' H. unfold w0 in H. rewrite RP.nth_app_new in H. inv H. apply new_writer_ok. exact I.
+    + simpl. intros b [Hc|Hc]; congruence.
+    + simpl. apply (j_pool _ _ Jo).
+  - unfold take_buf. destruct (j_pool _ _ Jo) as [Hnd Hp].
+    assert (Hfresh : exists o', J (fst (let '(s1, b, ok) := (set_bufs s (bufs s ++ [[]]), length (bufs s), true) in
+                 (add_writer s1 (mkW k (Some b) [] false [] WOpen PNone false), OOk ok))) o').
+    { simpl. set (b := length (bufs s)).
+      exists (mkOwn (fun x => if Nat.eqb x b then BWriter w0 else bo o x) (fo o) (hd o) (hf o)).
+      eapply (J_chg s o _ _ w0); try reflexivity; [exact Jo| | | | |].
+      + simpl. apply wext_app.
+      + simpl. intros w wr' H Hne. eapply Hoth; eauto.
+      + simpl. intros wr' H. unfold w0 in H. rewrite RP.nth_app_new in H. inv H. apply new_writer_ok.
+        simpl. rewrite Nat.eqb_refl. split; [reflexivity|]. unfold b. apply RP.nth_app_new.
+      + simpl. intros b' Hc. destruct (Nat.eqb_spec b' b) as [Eb|Hne]; [subst b'|]; [|idtac].
+        * eapply priv_of_owner; eauto. right. right. apply nth_error_None. unfold b. lia.
+        * rewrite nth_app_other in Hc by exact Hne. destruct Hc; congruence.
+      + simpl. split; [exact Hnd|]. intros b' Hin. destruct (Hp _ Hin) as [P1 P2].
+        assert (Hlt : b' < length (bufs s)) by (eapply RP.nth_some_lt; eauto).
+        destruct (Nat.eqb_spec b' b) as [Eb|Hne]; [subst b'|]; [|idtac]; [unfold b in Hlt; lia|].
+        split; [exact P1|]. rewrite nth_error_app1 by exact Hlt. exact P2. }
+    destruct p as [b|].
+    + destruct (existsb (Nat.eqb b) (pool s)) eqn:Hex.
+      * apply existsb_exists in Hex. destruct Hex as (x & Hin & Hx). apply Nat.eqb_eq in Hx. subst x.
+        destruct (Hp _ Hin) as [P1 P2]. destruct (remove1_nodup b _ Hnd) as [N1 N2].
+        simpl.
+        exists (mkOwn (fun x => if Nat.eqb x b then BWriter w0 else bo o x) (fo o) (hd o) (hf o)).
+        eapply (J_chg s o _ _ w0); try reflexivity; [exact Jo| | | | |].
+        -- simpl. apply wext_app.
+        -- simpl. intros w wr' H Hne. eapply Hoth; eauto.
+        -- simpl. intros wr' H. unfold w0 in H. rewrite RP.nth_app_new in H. inv H. apply new_writer_ok.
+           simpl. rewrite Nat.eqb_refl. auto.
+        -- simpl. intros b' Hc. destruct (Nat.eqb_spec b' b) as [Eb|Hne]; [subst b'|]; [|idtac].
+           ++ eapply priv_of_owner; eauto.
+           ++ destruct Hc; congruence.
+        -- simpl. split; [exact N1|]. intros b' Hin'. pose proof (remove1_in _ _ _ Hin') as Hin2.
+           destruct (Nat.eqb_spec b' b) as [Eb|Hne]; [subst b'|]; [|idtac]; [tauto|]. apply Hp. exact Hin2.
+      * destruct Hfresh as [o' Ho']. exists o'. simpl in *. exact Ho'.
+    + exact Hfresh.
+Qed.
+
+(* ---- running the OnEvicted bodies ---- *)
+Lemma recycle_all_spec rs : forall s,
+  let s' := fold_left recycle rs s in
+  dc s' = dc s /\ dval s' = dval s /\ fc s' = fc s /\ fval s' = fval s /\ fds s' = fds s /\ dir s' = dir s
+  /\ writers s' = writers s /\ readers s' = readers s
+  /\ pool s' = rev rs ++ pool s
+  /\ length (bufs s') = length (bufs s)
+  /\ (forall b, ~ In b rs -> nth_error (bufs s') b = nth_error (bufs s) b)
+  /\ (forall b, In b rs -> b < length (bufs s) -> nth_error (bufs s') b = Some []).
+Proof.
+  induction rs as [|a rs IH]; intros s; simpl.
+  - repeat split; auto. intros b [].
+  - destruct (IH (recycle s a)) as (A1 & A2 & A3 & A4 & A5 & A6 & A7 & A8 & A9 & A10 & A11 & A12).
+    simpl in *. repeat split; auto.
+    + rewrite A9. rewrite <- app_assoc. reflexivity.
+    + rewrite A10. apply RP.upd_length.
+    + intros b Hn. destruct (in_dec Nat.eq_dec b rs) as [Hin|Hnin].
+      * exfalso. apply Hn. auto.
+      * rewrite A11 by exact Hnin. apply RP.nth_upd_ne. intros ->. apply Hn. auto.
+    + intros b Hin Hlt. destruct (in_dec Nat.eq_dec b rs) as [Hin'|Hnin].
+      * apply A12; [exact Hin'|]. rewrite RP.upd_length. exact Hlt.
+      * rewrite A11 by exact Hnin. destruct Hin as [->|Hin]; [|contradiction]. apply RP.nth_upd_eq. exact Hlt.
+Qed.
+
+Lemma close_all_spec fs : forall s,
+  let s' := fold_left close_fd fs s in
+  dc s' = dc s /\ dval s' = dval s /\ fc s' = fc s /\ fval s' = fval s /\ bufs s' = bufs s /\ pool s' = pool s /\ dir s' = dir s
+  /\ writers s' = writers s /\ readers s' = readers s
+  /\ length (fds s') = length (fds s)
+  /\ (forall f, ~ In f fs -> nth_error (fds s') f = nth_error (fds s) f)
+  /\ (forall f w op, nth_error (fds s') f = Some (w, op) -> exists op0, nth_error (fds s) f = Some (w, op0)).
+Proof.
+  induction fs as [|a fs IH]; intros s; simpl.
+  - repeat split; auto. intros f w op H. eauto.
+  - destruct (IH (close_fd s a)) as (A1 & A2 & A3 & A4 & A5 & A6 & A7 & A8 & A9 & A10 & A11 & A12).
+    assert (Hc : dc (close_fd s a) = dc s /\ dval (close_fd s a) = dval s /\ fc (close_fd s a) = fc s /\ fval (close_fd s a) = fval s
+                 /\ bufs (close_fd s a) = bufs s /\ pool (close_fd s a) = pool s /\ dir (close_fd s a) = dir s
+                 /\ writers (close_fd s a) = writers s /\ readers (close_fd s a) = readers s
+                 /\ length (fds (close_fd s a)) = length (fds s)
+                 /\ (forall f, f <> a -> nth_error (fds (close_fd s a)) f = nth_error (fds s) f)
+                 /\ (forall f w op, nth_error (fds (close_fd s a)) f = Some (w, op) -> exists op0, nth_error (fds s) f = Some (w, op0))).
+    { unfold close_fd. destruct (nth_error (fds s) a) as [[w0 op0]|] eqn:E; simpl.
+      - repeat split; auto.
+        + apply RP.upd_length.
+        + intros f Hne. apply RP.nth_upd_ne. auto.
+        + intros f w op H. apply nth_upd_cases in H. destruct H as [(-> & H & _)|[_ H]]; [inv H; eauto|eauto].
+      - repeat split; auto. intros f w op H. eauto. }
+    destruct Hc as (C1 & C2 & C3 & C4 & C5 & C6 & C7 & C8 & C9 & C10 & C11 & C12).
+    repeat split; try congruence.
+    + intros f Hn. rewrite A11 by (intros Hin; apply Hn; auto). apply C11. intros ->. apply Hn. auto.
+    + intros f w op H. destruct (A12 _ _ _ H) as [op1 H1]. eapply C12; eauto.
+Qed.
+
+Lemma NoDup_map_on {A B} (f : A -> B) l :
+  (forall x y, In x l -> In y l -> f x = f y -> x = y) -> NoDup l -> NoDup (map f l).
+Proof.
+  induction l as [|a l IH]; simpl; intros Hinj Hnd; [constructor|]. inv Hnd. constructor.
+  - intros Hin. apply in_map_iff in Hin. destruct Hin as (x & Hfx & Hx).
+    assert (x = a) by (apply Hinj; auto). subst. contradiction.
+  - apply IH; auto.
+Qed.
+
+Lemma NoDup_app_intro {A} (l1 l2 : list A) :
+  NoDup l1 -> NoDup l2 -> (forall x, In x l1 -> ~ In x l2) -> NoDup (l1 ++ l2).
+Proof.
+  induction l1 as [|a l1 IH]; simpl; intros H1 H2 Hd; [exact H2|]. inv H1. constructor.
+  - intros Hin. apply in_app_or in Hin. destruct Hin as [Hin|Hin]; [contradiction|]. apply (Hd a); auto.
+  - apply IH; auto.
+Qed.
+
+(* One transition of the data cache (LRU op + the OnEvicted bodies it triggers), possibly publishing a new value.
+   [hrel] is the handle released by the op (any fresh index if none): nobody may still claim it. *)
+Lemma J_dc_trans s o rop hrel newv :
+  J s o ->
+  (forall h' i, held (dc s) h' i -> h' <> hrel -> held (fst (R.step (dc s) rop)) h' i) ->
+  (forall r rd b len h, nth_error (readers s) r = Some rd -> r_open rd = true -> r_kind rd = RBuf b len h -> h <> hrel) ->
+  (forall w wr stg h i, nth_error (writers s) w = Some wr -> w_ps wr = PStage stg h i -> h <> hrel) ->
+  match newv with
+  | None => keys (fst (R.step (dc s) rop)) = keys (dc s)
+  | Some (k, b) => keys (fst (R.step (dc s) rop)) = keys (dc s) ++ [k]
+        /\ R.callbacks (fst (R.step (dc s) rop)) (length (R.ents (dc s))) = 0
+        /\ (exists w0, bo o b = BWriter w0)
+        /\ (forall w wr, nth_error (writers s) w = Some wr -> w_status wr = WOpen -> w_buf wr <> Some b)
+        /\ (exists v, nth_error (bufs s) b = Some v /\ committed s k v)
+  end ->
+  let c' := fst (R.step (dc s) rop) in
+  let dv := match newv with None => dval s | Some (_, b) => dval s ++ [b] end in
+  let s1 := dc_apply s c' dv in
+  exists bo1, J s1 (mkOwn bo1 (fo o) (hd o) (hf o))
+     /\ (forall b, (forall i, bo o b <> BValue i) -> match newv with Some (_, b0) => b <> b0 | None => True end -> bo1 b = bo o b)
+     /\ (forall i b, nth_error (dval s) i = Some b -> i < length (R.ents (dc s)) -> R.callbacks c' i = 0 ->
+           nth_error (bufs s1) b = nth_error (bufs s) b)
+     /\ dc s1 = c' /\ dval s1 = dv /\ fc s1 = fc s /\ fval s1 = fval s /\ fds s1 = fds s /\ dir s1 = dir s
+     /\ writers s1 = writers s /\ readers s1 = readers s.
+Proof.
+  intros Jo Hkeep Hrd Hwr Hnew.
+  pose proof (j_dc _ _ Jo) as Idc.
+  destruct (fin_facts (dc s) rop Idc) as (I' & Hlog & Hnd & Hfin1 & Hfin0).
+  remember (fst (R.step (dc s) rop)) as c' eqn:Ec. intros c'' dv s1. subst c''.
+  set (fin := finalised (dc s) c') in *.
+  set (rs := map (fun i => nth i dv 0) fin).
+  assert (Hs1 : s1 = fold_left recycle rs (set_dc s c' dv)) by reflexivity.
+  destruct (recycle_all_spec rs (set_dc s c' dv)) as (A1 & A2 & A3 & A4 & A5 & A6 & A7 & A8 & A9 & A10 & A11 & A12).
+  rewrite <- Hs1 in *. simpl in A1, A2, A3, A4, A5, A6, A7, A8, A9, A10, A11, A12.
+  (* length facts *)
+  assert (Hlen' : length (R.ents c') = length dv).
+  { rewrite <- keys_length. unfold dv. destruct newv as [[k b]|].
+    - destruct Hnew as (Hk & _). rewrite Hk, !app_length, keys_length, (j_dl _ _ Jo). reflexivity.
+    - rewrite Hnew, keys_length, (j_dl _ _ Jo). reflexivity. }
+  assert (Hdv_old : forall i b, nth_error (dval s) i = Some b -> nth_error dv i = Some b).
+  { intros i b H. unfold dv. destruct newv as [[k b0]|]; [|exact H].
+    rewrite nth_error_app1; [exact H|]. eapply RP.nth_some_lt; eauto. }
+  assert (Hkeys_old : forall i k, nth_error (keys (dc s)) i = Some k -> nth_error (keys c') i = Some k).
+  { intros i k H. destruct newv as [[k0 b0]|].
+    - destruct Hnew as (Hk & _). rewrite Hk. rewrite nth_error_app1; [exact H|]. eapply RP.nth_some_lt; eauto.
+    - rewrite Hnew. exact H. }
+  (* K1: finalised values are old values *)
+  assert (K1 : forall i, In i fin -> i < length (R.ents (dc s))).
+  { intros i Hin. destruct (Hfin1 _ Hin) as [_ H1].
+    assert (Hlt : i < length (R.ents c')).
+    { apply (RP.inv_log _ I'). rewrite Hlog. apply in_or_app. right. exact Hin. }
+    destruct newv as [[k b]|].
+    - destruct Hnew as (Hk & Hcb & _). rewrite <- keys_length, Hk, app_length, keys_length in Hlt. simpl in Hlt.
+      destruct (Nat.eq_dec i (length (R.ents (dc s)))) as [->|Hne]; [congruence|lia].
+    - rewrite <- keys_length, Hnew, keys_length in Hlt. exact Hlt. }
+  (* K2: their buffers *)
+  assert (K2 : forall i, In i fin -> exists b k v, nth_error (keys (dc s)) i = Some k /\ nth_error (dval s) i = Some b
+                 /\ nth i dv 0 = b /\ bo o b = BValue i /\ nth_error (bufs s) b = Some v).
+  { intros i Hin. pose proof (K1 _ Hin) as Hlt. destruct (Hfin1 _ Hin) as [H0 _].
+    destruct (dval_some s o i Jo Hlt) as [b Hb].
+    destruct (nth_error (keys (dc s)) i) as [k|] eqn:Hk.
+    2:{ apply nth_error_None in Hk. rewrite keys_length in Hk. lia. }
+    destruct (j_val _ _ Jo i k b Hk H0 Hb) as (P & v & Q & _).
+    exists b, k, v. repeat split; auto. apply nth_of_nth_error. apply Hdv_old. exact Hb. }
+  assert (K3 : forall x, In x rs -> exists i, In i fin /\ nth_error (dval s) i = Some x /\ bo o x = BValue i
+                                    /\ exists v, nth_error (bufs s) x = Some v).
+  { intros x Hin. apply in_map_iff in Hin. destruct Hin as (i & Hx & Hin).
+    destruct (K2 _ Hin) as (b & k & v & B1 & B2 & B3 & B4 & B5). exists i. rewrite <- Hx, B3. eauto 6. }
+  assert (K4 : NoDup rs).
+  { apply NoDup_map_on; [|exact Hnd]. intros x y Hx Hy E.
+    destruct (K2 _ Hx) as (b & k & v & _ & _ & B3 & B4 & _). destruct (K2 _ Hy) as (b2 & k2 & v2 & _ & _ & C3 & C4 & _).
+    rewrite B3, C3 in E. subst b2. rewrite B4 in C4. inv C4. reflexivity. }
+  (* unfinalised old values keep away from rs *)
+  assert (K5 : forall i b, nth_error (dval s) i = Some b -> i < length (R.ents (dc s)) -> R.callbacks c' i = 0 ->
+               R.callbacks (dc s) i = 0 /\ ~ In b rs).
+  { intros i b Hb Hlt Hcb.
+    assert (Hni : ~ In i fin) by (intros Hin; destruct (Hfin1 _ Hin); congruence).
+    rewrite (Hfin0 _ Hni) in Hcb. split; [exact Hcb|]. intros Hin.
+    destruct (K3 _ Hin) as (i' & Hin' & Hb' & Hbo' & _).
+    destruct (nth_error (keys (dc s)) i) as [k|] eqn:Hk.
+    2:{ apply nth_error_None in Hk. rewrite keys_length in Hk. lia. }
+    destruct (j_val _ _ Jo i k b Hk Hcb Hb) as (P & _). rewrite P in Hbo'. inv Hbo'. contradiction. }
+  set (bo1 := fun x => if in_dec Nat.eq_dec x rs then BFree
+                       else match newv with
+                            | Some (_, b0) => if Nat.eqb x b0 then BValue (length (R.ents (dc s))) else bo o x
+                            | None => bo o x
+                            end).
+  assert (Hbo1 : forall b, (forall i, bo o b <> BValue i) -> match newv with Some (_, b0) => b <> b0 | None => True end -> bo1 b = bo o b).
+  { intros b Hnv Hnb. unfold bo1. destruct (in_dec Nat.eq_dec b rs) as [Hin|Hnin].
+    - destruct (K3 _ Hin) as (i & _ & _ & Hbo & _). exfalso. eapply Hnv; eauto.
+    - destruct newv as [[k b0]|]; [|reflexivity]. destruct (Nat.eqb_spec b b0); [contradiction|reflexivity]. }
+  assert (Hcm : forall k v, committed s k v -> committed s1 k v).
+  { intros k v H. apply committed_W. rewrite A7. exact H. }
+  exists bo1. split; [|split; [exact Hbo1|split; [|repeat split; auto]]].
+  2:{ intros i b Hb Hlt Hcb. apply A11. eapply K5; eauto. }
+  constructor; simpl; rewrite ?A1, ?A2, ?A3, ?A4, ?A5, ?A6, ?A7, ?A8.
+  - exact I'.
+  - apply (j_fc _ _ Jo).
+  - symmetry. exact Hlen'.
+  - apply (j_fl _ _ Jo).
+  - (* j_val *)
+    intros i k b Hk Hcb Hb.
+    destruct (Nat.lt_ge_cases i (length (R.ents (dc s)))) as [Hlt|Hge].
+    + assert (Hb0 : nth_error (dval s) i = Some b).
+      { unfold dv in Hb. destruct newv as [[k0 b0]|]; [|exact Hb]. rewrite nth_error_app1 in Hb; [exact Hb|]. rewrite (j_dl _ _ Jo). exact Hlt. }
+      assert (Hk0 : nth_error (keys (dc s)) i = Some k).
+      { destruct (nth_error (keys (dc s)) i) as [k1|] eqn:E.
+        - rewrite (Hkeys_old _ _ E) in Hk. exact Hk.
+        - apply nth_error_None in E. rewrite keys_length in E. lia. }
+      destruct (K5 _ _ Hb0 Hlt Hcb) as [Hcb0 Hnin].
+      destruct (j_val _ _ Jo i k b Hk0 Hcb0 Hb0) as (P & v & Q1 & Q2).
+      split.
+      * unfold bo1. destruct (in_dec Nat.eq_dec b rs) as [Hin|_]; [contradiction|].
+        destruct newv as [[k0 b0]|]; [|exact P]. destruct (Nat.eqb_spec b b0) as [->|_]; [|exact P].
+        destruct Hnew as (_ & _ & (w0 & Hw0) & _). congruence.
+      * exists v. split; [rewrite A11 by exact Hnin; exact Q1|auto].
+    + destruct newv as [[k0 b0]|].
+      * destruct Hnew as (Hkk & Hcb0 & (w0 & Hw0) & Hnow & (v & Hv & Hcv)).
+        assert (Hi : i = length (R.ents (dc s))).
+        { apply RP.nth_some_lt in Hb. unfold dv in Hb. rewrite app_length, (j_dl _ _ Jo) in Hb. simpl in Hb. lia. }
+        subst i. unfold dv in Hb. rewrite <- (j_dl _ _ Jo) in Hb. rewrite RP.nth_app_new in Hb. inv Hb.
+        rewrite Hkk in Hk. rewrite <- keys_length in Hk. rewrite RP.nth_app_new in Hk. inv Hk.
+        assert (Hnin : ~ In b rs).
+        { intros Hin. destruct (K3 _ Hin) as (i' & _ & _ & Hbo & _). congruence. }
+        split.
+        -- unfold bo1. destruct (in_dec Nat.eq_dec b rs) as [Hin|_]; [contradiction|]. rewrite Nat.eqb_refl. reflexivity.
+        -- exists v. split; [rewrite A11 by exact Hnin; exact Hv|auto].
+      * exfalso. apply RP.nth_some_lt in Hb. unfold dv in Hb. rewrite (j_dl _ _ Jo) in Hb. lia.
+  - (* j_pool *)
+    destruct (j_pool _ _ Jo) as [Hpnd Hp]. rewrite A9. split.
+    + apply NoDup_app_intro; [apply NoDup_rev; exact K4|exact Hpnd|].
+      intros x Hin Hin2. apply in_rev in Hin. destruct (K3 _ Hin) as (i & _ & _ & Hbo & _).
+      destruct (Hp _ Hin2). congruence.
+    + intros b Hin. apply in_app_or in Hin. destruct Hin as [Hin|Hin].
+      * apply in_rev in Hin. split.
+        -- unfold bo1. destruct (in_dec Nat.eq_dec b rs); [reflexivity|contradiction].
+        -- destruct (K3 _ Hin) as (i & _ & _ & _ & v & Hv). apply A12; [exact Hin|]. eapply RP.nth_some_lt; eauto.
+      * destruct (Hp _ Hin) as [P1 P2].
+        assert (Hnin : ~ In b rs).
+        { intros Hin'. destruct (K3 _ Hin') as (i & _ & _ & Hbo & _). congruence. }
+        split.
+        -- rewrite Hbo1; [exact P1| |]; [intros i; congruence|].
+           destruct newv as [[k0 b0]|]; [|exact I]. destruct Hnew as (_ & _ & (w0 & Hw0) & _). intros ->. congruence.
+        -- rewrite A11 by exact Hnin. exact P2.
+  - (* j_w *)
+    intros w wr Hw. eapply writer_ok_frame; [| | | | |apply (j_w _ _ Jo); exact Hw]; simpl; rewrite ?A1.
+    + intros stg h i Hps Hh. apply Hkeep; [exact Hh|]. eapply Hwr; eauto.
+    + auto.
+    + exact Hkeys_old.
+    + exact Hcm.
+    + intros b Hb Hop Hbo. split.
+      * rewrite Hbo1; [exact Hbo| |]; [intros i; congruence|].
+        destruct newv as [[k0 b0]|]; [|exact I]. destruct Hnew as (_ & _ & _ & Hnow & _). intros ->. eapply Hnow; eauto.
+      * apply A11. intros Hin. destruct (K3 _ Hin) as (i & _ & _ & Hbo' & _). congruence.
+  - apply (j_dir _ _ Jo).
+  - apply (j_fds _ _ Jo).
+  - apply (j_fval _ _ Jo).
+  - (* j_r *)
+    intros r rd Hr Hop. pose proof (j_r _ _ Jo r rd Hr Hop) as Hok.
+    eapply reader_ok_frame; [| | | | | | | | | |exact Hok]; simpl; rewrite ?A1, ?A2, ?A3, ?A4, ?A5, ?A7; auto.
+    + intros b len h i K Hh. apply Hkeep; [exact Hh|]. eapply Hrd; eauto.
+    + intros b len h K. destruct Hok as (_ & Hk). rewrite K in Hk. destruct Hk as (i & H1 & H2 & H3 & H4 & H5).
+      apply A11. assert (Hlt : i < length (R.ents (dc s))) by (eapply held_lt; eauto).
+      assert (Hh' : held c' h i) by (apply Hkeep; [exact H1|eapply Hrd; eauto]).
+      destruct (K5 i b H3 Hlt (held_unfin _ _ _ I' Hh')) as [_ Hnin]. exact Hnin.
+Qed.
+
+(* ---- releasing a data-cache reference nobody claims any more ---- *)
+Lemma rel_keep c h h' i : held c h' i -> h' <> h -> held (fst (R.step c (R.Release h false))) h' i.
+Proof.
+  intros Hh Hne. unfold held. destruct (step_rel c h) as [_ Hhs]. rewrite Hhs.
+  destruct (nth_error (R.hs c) h) as [[i0 f0]|]; [|exact Hh]. rewrite RP.nth_upd_ne by auto. exact Hh.
+Qed.
+
+Lemma J_dc_release s o h :
+  J s o ->
+  (forall r rd b len h', nth_error (readers s) r = Some rd -> r_open rd = true -> r_kind rd = RBuf b len h' -> h' <> h) ->
+  (forall w wr stg h' i, nth_error (writers s) w = Some wr -> w_ps wr = PStage stg h' i -> h' <> h) ->
+  exists o', J (dc_release s h) o'.
+Proof.
+  intros Jo Hr Hw.
+  destruct (J_dc_trans s o (R.Release h false) h None Jo) as (bo1 & J1 & _); auto.
+  - intros h' i. apply rel_keep.
+  - apply (step_rel (dc s) h).
+  - eexists. exact J1.
+Qed.
+
+Lemma J_pdone s o w : J s o -> exists o', J (do_pdone s w) o'.
+Proof.
+  intros Jo. unfold do_pdone. destruct (nth_error (writers s) w) as [wr|] eqn:Hw; [|eauto].
+  destruct (w_ps wr) as [|stg h i] eqn:Hps; [eauto|]. destruct stg as [|[|[|stg]]]; eauto.
+  pose proof (j_w _ _ Jo _ _ Hw) as (Hs & Hr & Ho). unfold stage_ok in Hs. rewrite Hps in Hs.
+  destruct Hs as (S1 & S2 & S3 & S4 & _ & _).
+  assert (J0 : J (set_w s w (wr_ps wr PNone)) o).
+  { rewrite <- (set_dir_same s) at 1.
+    eapply (J_upd_writer s o w wr); [exact Jo|exact Hw|reflexivity| | | |]; simpl; auto.
+    rewrite set_dir_same. split; [exact I|]. split; [|simpl; rewrite S3; discriminate].
+    simpl. intros Hren. eapply committed_ext; [|apply Hr; exact Hren].
+    eapply wext_upd; eauto. }
+  apply (J_dc_release _ o h J0).
+  - simpl. intros r rd b len h' Hrd Hop K ->.
+    destruct (j_r _ _ Jo r rd Hrd Hop) as (_ & Hk). rewrite K in Hk. destruct Hk as (i' & _ & Hhd & _). congruence.
+  - simpl. intros w' wr' stg h' i' Hw' Hps' ->. apply nth_upd_cases in Hw'.
+    destruct Hw' as [(-> & -> & _)|[Hne Hw']]; [simpl in Hps'; discriminate|].
+    destruct (j_w _ _ Jo _ _ Hw') as (Hs' & _). unfold stage_ok in Hs'. rewrite Hps' in Hs'.
+    destruct Hs' as (_ & Hhd & _). congruence.
+Qed.
+
+(* ---- readers ---- *)
+Lemma J_mark_closed s o r rd : J s o -> nth_error (readers s) r = Some rd ->
+  J (set_readers s (R.upd (readers s) r (rd_close rd))) o.
+Proof.
+  intros Jo Hr. destruct Jo. constructor; simpl; try assumption.
+  intros r' rd' H Hop. apply nth_upd_cases in H. destruct H as [(-> & -> & _)|[Hne H]]; [discriminate|].
+  eapply reader_ok_frame; [| | | | | | | | | |apply j_r0; eauto]; auto.
+Qed.
+
+Lemma J_closer_buf s o r rd b len h : J s o -> nth_error (readers s) r = Some rd -> r_open rd = true ->
+  r_kind rd = RBuf b len h ->
+  exists o', J (dc_release (set_readers s (R.upd (readers s) r (rd_close rd))) h) o'.
+Proof.
+  intros Jo Hr Hop K.
+  destruct (j_r _ _ Jo r rd Hr Hop) as (_ & Hk). rewrite K in Hk. destruct Hk as (i & _ & Hhd & _).
+  apply (J_dc_release _ o h (J_mark_closed s o r rd Jo Hr)).
+  - simpl. intros r' rd' b' len' h' Hrd' Hop' K' ->. apply nth_upd_cases in Hrd'.
+    destruct Hrd' as [(-> & -> & _)|[Hne Hrd']]; [discriminate|].
+    destruct (j_r _ _ Jo r' rd' Hrd' Hop') as (_ & Hk'). rewrite K' in Hk'. destruct Hk' as (i' & _ & Hhd' & _). congruence.
+  - simpl. intros w' wr' stg h' i' Hw' Hps' ->.
+    destruct (j_w _ _ Jo _ _ Hw') as (Hs' & _). unfold stage_ok in Hs'. rewrite Hps' in Hs'.
+    destruct Hs' as (_ & Hhd' & _). congruence.
+Qed.
+
+(* appending a reader record together with the ownership entry it claims *)
+Lemma J_add_reader s o o' rd :
+  J s o -> bo o' = bo o ->
+  (forall w wr stg h i, nth_error (writers s) w = Some wr -> w_ps wr = PStage stg h i -> hd o h = HWriter w -> hd o' h = HWriter w) ->
+  (forall r rd0 b len h, nth_error (readers s) r = Some rd0 -> r_open rd0 = true -> r_kind rd0 = RBuf b len h ->
+       hd o h = HReader r -> hd o' h = HReader r) ->
+  (forall r rd0 f h, nth_error (readers s) r = Some rd0 -> r_open rd0 = true -> r_kind rd0 = RFd f h ->
+       hf o h = HReader r -> hf o' h = HReader r) ->
+  (forall r rd0 f c, nth_error (readers s) r = Some rd0 -> r_open rd0 = true -> r_kind rd0 = ROwn f c ->
+       fo o f = FReader r -> fo o' f = FReader r) ->
+  (forall j k f, nth_error (keys (fc s)) j = Some k -> R.callbacks (fc s) j = 0 -> nth_error (fval s) j = Some f ->
+       fo o' f = fo o f) ->
+  reader_ok (add_reader s rd) o' (length (readers s)) rd ->
+  J (add_reader s rd) o'.
+Proof.
+  intros Jo Hbo Hw Hrb Hrf Hro Hfv Hnew. destruct Jo. constructor; simpl; try assumption.
+  - rewrite Hbo. assumption.
+  - rewrite Hbo. assumption.
+  - intros w wr H. eapply writer_ok_frame; [| | | | |apply j_w0; exact H]; simpl; auto.
+    + intros stg h i Hps. eapply Hw; eauto.
+    + intros b _ _ Hb. rewrite Hbo. auto.
+  - intros j k f A B C. rewrite (Hfv j k f A B C). apply j_fval0; auto.
+  - intros r rd0 H Hop. destruct (Nat.eq_dec r (length (readers s))) as [->|Hne].
+    + rewrite RP.nth_app_new in H. inv H. exact Hnew.
+    + rewrite nth_app_other in H by exact Hne.
+      eapply reader_ok_frame; [| | | | | | | | | |apply j_r0; eauto]; simpl; auto.
+      * intros b len h K. eapply Hrb; eauto.
+      * intros f h K. eapply Hrf; eauto.
+      * intros f c K. eapply Hro; eauto.
+Qed.
+
+Lemma app_keep c c' x h i : R.hs c' = R.hs c ++ [x] -> held c h i -> held c' h i.
+Proof. unfold held. intros E H. rewrite E. rewrite nth_error_app1; [exact H|]. eapply RP.nth_some_lt; eauto. Qed.
+
+(* handles claimed in a state are older than the next handle index *)
+Lemma claims_old_d s o : J s o ->
+  (forall r rd b len h, nth_error (readers s) r = Some rd -> r_open rd = true -> r_kind rd = RBuf b len h -> h <> length (R.hs (dc s))) /\
+  (forall w wr stg h i, nth_error (writers s) w = Some wr -> w_ps wr = PStage stg h i -> h <> length (R.hs (dc s))).
+Proof.
+  intros Jo. split.
+  - intros r rd b len h Hr Hop K. destruct (j_r _ _ Jo r rd Hr Hop) as (_ & Hk). rewrite K in Hk.
+    destruct Hk as (i & Hh & _). apply RP.nth_some_lt in Hh. lia.
+  - intros w wr stg h i Hw Hps. destruct (j_w _ _ Jo _ _ Hw) as (Hs & _). unfold stage_ok in Hs. rewrite Hps in Hs.
+    destruct Hs as (Hh & _). apply RP.nth_some_lt in Hh. lia.
+Qed.
+
+Lemma cached_key c k i : RP.Inv c -> R.lru_find (R.lru c) k = Some i ->
+  nth_error (keys c) i = Some k /\ R.callbacks c i = 0 /\ i < length (R.ents c).
+Proof.
+  intros I Hf. apply RP.find_in in Hf. destruct (RP.inv_lru _ I _ _ Hf) as (e & He & Hk).
+  split; [rewrite (keys_nth _ _ _ He), Hk; reflexivity|]. split.
+  - apply RP.cached_not_finalized; [exact I|]. exists k. exact Hf.
+  - eapply RP.nth_some_lt; eauto.
+Qed.
+
+Lemma J_get_mem s o k : J s o -> exists o', J (fst (get_mem s k)) o'.
+Proof.
+  intros Jo. unfold get_mem. destruct (R.step (dc s) (R.Get k)) as [c' r] eqn:E.
+  destruct r as [[i fl]|]; [|simpl; eauto].
+  destruct (step_get_hit _ _ _ _ _ E) as (Hf & Hhs & Hkeys).
+  assert (Ec : c' = fst (R.step (dc s) (R.Get k))) by (rewrite E; reflexivity).
+  pose proof (j_dc _ _ Jo) as Idc.
+  destruct (cached_key _ _ _ Idc Hf) as (Hk & Hcb & Hlt).
+  destruct (dval_some s o i Jo Hlt) as [b Hb].
+  destruct (j_val _ _ Jo i k b Hk Hcb Hb) as (Hbo & v & Hv & Hcm).
+  destruct (claims_old_d s o Jo) as [Hcr Hcw].
+  set (h := length (R.hs (dc s))) in *.
+  destruct (J_dc_trans s o (R.Get k) h None Jo) as (bo1 & J1 & Hbo1 & Hbufs & F1 & F2 & F3 & F4 & F5 & F6 & F7 & F8); auto.
+  { intros h' i' Hh _. rewrite <- Ec. eapply app_keep; eauto. }
+  { rewrite <- Ec. exact Hkeys. }
+  rewrite <- Ec in *. simpl.
+  set (s1 := dc_apply s c' (dval s)) in *.
+  assert (Hheld : held c' h i).
+  { unfold held. rewrite Hhs. unfold h. apply RP.nth_app_new. }
+  assert (Hnth : nth i (dval s) 0 = b) by (apply nth_of_nth_error; exact Hb).
+  assert (Hbuf : buf_at s b = v) by (unfold buf_at; apply nth_of_nth_error; exact Hv).
+  rewrite Hnth, Hbuf.
+  set (r := length (readers s)).
+  exists (mkOwn bo1 (fo o) (fun x => if Nat.eqb x h then HReader r else hd o x) (hf o)).
+  assert (Hr1 : length (readers s1) = r) by (rewrite F8; reflexivity).
+  eapply J_add_reader; [exact J1|reflexivity| | | | | |]; simpl; auto.
+  - intros w wr stg h' i' Hw Hps Hhd. rewrite F7 in Hw. destruct (Nat.eqb_spec h' h) as [->|_]; [|exact Hhd].
+    exfalso. eapply Hcw; eauto.
+  - intros r' rd0 b' len h' Hr' Hop K Hhd. rewrite F8 in Hr'. destruct (Nat.eqb_spec h' h) as [->|_]; [|exact Hhd].
+    exfalso. eapply Hcr; eauto.
+  - rewrite Hr1. split.
+    + simpl. apply committed_W. simpl. rewrite F7. exact Hcm.
+    + simpl. exists i. rewrite F1, F2. split; [exact Hheld|]. split; [rewrite Nat.eqb_refl; reflexivity|].
+      split; [exact Hb|]. split; [|reflexivity].
+      rewrite (Hbufs i b Hb Hlt); [exact Hv|]. eapply held_unfin; eauto. rewrite <- F1. apply (j_dc _ _ J1).
+Qed.
+
+(* rewriting one writer record while it claims a (so far unclaimed) data-cache handle *)
+Lemma J_upd_writer_own s o o' w0 wr0 wr' :
+  J s o -> nth_error (writers s) w0 = Some wr0 ->
+  bo o' = bo o -> fo o' = fo o -> hf o' = hf o ->
+  (forall w wr stg h i, nth_error (writers s) w = Some wr -> w <> w0 -> w_ps wr = PStage stg h i -> hd o h = HWriter w -> hd o' h = HWriter w) ->
+  (forall r rd0 b len h, nth_error (readers s) r = Some rd0 -> r_open rd0 = true -> r_kind rd0 = RBuf b len h ->
+       hd o h = HReader r -> hd o' h = HReader r) ->
+  w_key wr' = w_key wr0 ->
+  (w_status wr0 = WCommitted -> w_acc wr' = w_acc wr0 /\ w_status wr' = WCommitted) ->
+  (w_renamed wr0 = true -> w_renamed wr' = true /\ w_file wr' = w_file wr0) ->
+  writer_ok (set_w s w0 wr') o' w0 wr' ->
+  J (set_w s w0 wr') o'.
+Proof.
+  intros Jo H0 Hbo Hfo Hhf Hwcl Hrcl Hk Hc Hr Hok.
+  assert (E : wext (writers s) (R.upd (writers s) w0 wr')) by (eapply wext_upd; eauto).
+  assert (Hl : w0 < length (writers s)) by (eapply RP.nth_some_lt; eauto).
+  set (s' := set_w s w0 wr') in *.
+  assert (Hcm : forall k v, committed s k v -> committed s' k v).
+  { intros k v. apply committed_ext. exact E. }
+  destruct Jo. constructor; simpl; rewrite ?Hbo, ?Hfo; try assumption.
+  - intros i k b A B C. destruct (j_val0 i k b A B C) as (P & v & Q1 & Q2). split; [exact P|]. exists v. split; [exact Q1|auto].
+  - intros w wr H. apply nth_upd_cases in H. destruct H as [(-> & -> & _)|[Hne H]]; [exact Hok|].
+    eapply writer_ok_frame; [| | | | |apply j_w0; exact H]; simpl; auto.
+    + intros stg h i Hps. eapply Hwcl; eauto.
+    + intros b _ _ Hb. rewrite Hbo. auto.
+  - intros k w H. destruct (j_dir0 _ _ H) as (wr & A & B & C). destruct (E _ _ A) as (wr2 & A2 & B2 & _ & D2).
+    exists wr2. split; [exact A2|]. split; [congruence|]. apply D2; exact C.
+  - intros f w op H. destruct (j_fds0 _ _ _ H) as (wr & A & B). destruct (E _ _ A) as (wr2 & A2 & _ & _ & D2).
+    exists wr2. split; [exact A2|apply D2; exact B].
+  - intros j k f A B C. destruct (j_fval0 j k f A B C) as (P & w & wr & Q1 & Q2 & Q3). split; [exact P|].
+    destruct (E _ _ Q2) as (wr2 & A2 & B2 & _). exists w, wr2. repeat split; auto; congruence.
+  - intros r rd A B. eapply reader_ok_frame; [| | | | | | | | | |apply j_r0; eauto]; simpl; auto.
+    + intros b len h K. eapply Hrcl; eauto.
+    + intros f h K. rewrite Hhf. auto.
+    + intros f k v _. apply fd_good_ext. exact E.
+    + intros f c K. rewrite Hfo. auto.
+Qed.
+
+Lemma J_commit s o w : J s o -> exists o', J (do_commit s w) o'.
+Proof.
+  intros Jo. unfold do_commit. destruct (nth_error (writers s) w) as [wr|] eqn:Hw; [|eauto].
+  destruct (w_active wr) eqn:Hact; [|eauto]. pose proof (active_open _ Hact) as Hop.
+  pose proof (j_w _ _ Jo _ _ Hw) as (Hs & Hr & Ho). destruct (Ho Hop) as (Hren & Hps & Hb).
+  assert (Hwl : w < length (writers s)) by (eapply RP.nth_some_lt; eauto).
+  destruct (w_buf wr) as [b|] eqn:Hbuf.
+  2:{ (* direct writer: rename *)
+    exists o. eapply (J_upd_writer s o w wr); [exact Jo|exact Hw|reflexivity| | | |].
+    - rewrite Hop. discriminate.
+    - rewrite Hren. discriminate.
+    - intros k w' [Hin|Hin]; [|left; exact Hin]. inv Hin. right. auto.
+    - split; [|split].
+      + unfold stage_ok. simpl. rewrite Hps. exact I.
+      + simpl. intros _. exists w. eexists. split; [simpl; apply RP.nth_upd_eq; exact Hwl|]. simpl. auto.
+      + simpl. discriminate. }
+  destruct Hb as (B1 & B2 & B3).
+  set (wr0 := wr_status wr WCommitted).
+  set (s0 := set_w s w wr0).
+  assert (J0 : J s0 o).
+  { unfold s0. rewrite <- (set_dir_same s) at 1.
+    eapply (J_upd_writer s o w wr); [exact Jo|exact Hw|reflexivity| | | |].
+    - rewrite Hop. discriminate.
+    - rewrite Hren. discriminate.
+    - auto.
+    - rewrite set_dir_same. split; [|split].
+      + unfold stage_ok. simpl. rewrite Hps. exact I.
+      + simpl. rewrite Hren. discriminate.
+      + simpl. discriminate. }
+  assert (Hw0 : nth_error (writers s0) w = Some wr0) by (simpl; apply RP.nth_upd_eq; exact Hwl).
+  assert (Hcm0 : committed s0 (w_key wr) (w_acc wr)).
+  { exists w, wr0. split; [exact Hw0|]. simpl. auto. }
+  assert (Hnow : forall w' wr', nth_error (writers s0) w' = Some wr' -> w_status wr' = WOpen -> w_buf wr' <> Some b).
+  { intros w' wr' H Hopen Hb'. destruct (j_w _ _ J0 _ _ H) as (_ & _ & Ho'). destruct (Ho' Hopen) as (_ & _ & C).
+    rewrite Hb' in C. destruct C as (C1 & _). rewrite B1 in C1. inv C1. rewrite Hw0 in H. inv H. discriminate. }
+  assert (Ed : dc s0 = dc s) by reflexivity. assert (Edv : dval s0 = dval s) by reflexivity.
+  rewrite Ed, Edv.
+  destruct (R.step (dc s) (R.Add (w_key wr))) as [c' r] eqn:E.
+  assert (Ec : c' = fst (R.step (dc s0) (R.Add (w_key wr)))) by (rewrite Ed, E; reflexivity).
+  destruct (step_add_res _ _ _ _ E) as (i & added & -> & Hhs & Hcase).
+  pose proof (j_dc _ _ J0) as Idc. rewrite Ed in Idc.
+  assert (Idc' : RP.Inv c') by (rewrite Ec, Ed; apply RP.step_inv; exact Idc).
+  destruct (claims_old_d s0 o J0) as [Hcr Hcw]. rewrite Ed in Hcr, Hcw.
+  set (h := length (R.hs (dc s))) in *.
+  assert (Hheld : held c' h i) by (unfold held; rewrite Hhs; unfold h; apply RP.nth_app_new).
+  set (wrF := wr_ps wr0 (PStage 0 h i)).
+  (* the final step: the writer claims handle h *)
+  assert (Hfinal : forall s2 o2, J s2 o2 -> dc s2 = c' -> writers s2 = writers s0 -> readers s2 = readers s0 ->
+             nth_error (keys c') i = Some (w_key wr) ->
+             exists o', J (set_w s2 w wrF) o').
+  { intros s2 o2 J2 F1 F7 F8 Hki.
+    exists (mkOwn (bo o2) (fo o2) (fun x => if Nat.eqb x h then HWriter w else hd o2 x) (hf o2)).
+    eapply (J_upd_writer_own s2 o2 _ w wr0); try reflexivity; [exact J2|rewrite F7; exact Hw0| | | | |]; simpl.
+    - intros w' wr' stg h' i' Hw' Hne Hps' Hhd. rewrite F7 in Hw'. destruct (Nat.eqb_spec h' h) as [->|_]; [|exact Hhd].
+      exfalso. eapply Hcw; eauto.
+    - intros r' rd0 b' len h' Hr' Hop' K Hhd. rewrite F8 in Hr'. destruct (Nat.eqb_spec h' h) as [->|_]; [|exact Hhd].
+      exfalso. eapply Hcr; eauto.
+    - auto.
+    - auto.
+    - split; [|split].
+      + unfold stage_ok. simpl. rewrite F1, Nat.eqb_refl. repeat split; auto; discriminate.
+      + simpl. rewrite Hren. discriminate.
+      + simpl. discriminate. }
+  destruct Hcase as [(-> & Hf & Hkeys)|(-> & Hf & -> & Hkeys)].
+  - (* key already cached: our buffer goes back to the pool *)
+    destruct (J_dc_trans s0 o (R.Add (w_key wr)) h None J0) as (bo1 & J1 & Hbo1 & _ & F1 & F2 & F3 & F4 & F5 & F6 & F7 & F8); auto.
+    { intros h' i' Hh _. rewrite <- Ec. eapply app_keep; eauto. }
+    { rewrite <- Ec. exact Hkeys. }
+    rewrite <- Ec in *. rewrite Edv in *.
+    set (s1 := dc_apply s0 c' (dval s)) in *.
+    assert (Hb1 : bo1 b = BWriter w) by (rewrite Hbo1; [exact B1|intros i'; congruence|exact I]).
+    set (o1 := mkOwn bo1 (fo o) (hd o) (hf o)) in *.
+    assert (Hlt1 : b < length (bufs s1)).
+    { destruct (j_w _ _ J1 w wr0) as (_ & _ & _); [rewrite F7; exact Hw0|].
+      (* the buffer exists: it is still allocated *)
+      destruct (nth_error (bufs s1) b) eqn:Eb; [eapply RP.nth_some_lt; eauto|].
+      exfalso. clear - Eb J1 Hb1 B2 Jo.
+      (* recycle never shrinks the buffer table *)
+      apply nth_error_None in Eb. unfold s1, dc_apply in Eb.
+      destruct (recycle_all_spec (map (fun i0 : nat => nth i0 (dval s) 0) (finalised (dc s0) c')) (set_dc s0 c' (dval s)))
+        as (_ & _ & _ & _ & _ & _ & _ & _ & _ & A10 & _). rewrite A10 in Eb. simpl in Eb.
+      apply RP.nth_some_lt in B2. lia. }
+    assert (J2 : J (recycle s1 b) (mkOwn (fun x => if Nat.eqb x b then BFree else bo1 x) (fo o1) (hd o1) (hf o1))).
+    { eapply (J_chg s1 o1 _ _ (length (writers s1))); try reflexivity; [exact J1| | | | |]; simpl.
+      - apply wext_refl.
+      - auto.
+      - intros wr' H. exfalso. apply RP.nth_some_lt in H. lia.
+      - intros b' Hc. destruct (Nat.eqb_spec b' b) as [Eb|Hne]; [subst b'|].
+        + destruct (priv_of_owner s1 o1 b w J1 (or_introl Hb1)) as [P1 P2]. split; [exact P1|].
+          intros w' wr' _ Hw' Hop' Hb'. rewrite F7 in Hw'. eapply Hnow; eauto.
+        + rewrite RP.nth_upd_ne in Hc by auto. destruct Hc; congruence.
+      - destruct (j_pool _ _ J1) as [Hnd Hp]. simpl in Hp. split.
+        + constructor; [|exact Hnd]. intros Hin. destruct (Hp _ Hin). congruence.
+        + intros b' [<-|Hin].
+          * rewrite Nat.eqb_refl. split; [reflexivity|]. apply RP.nth_upd_eq. exact Hlt1.
+          * destruct (Hp _ Hin) as [P1 P2]. destruct (Nat.eqb_spec b' b) as [Eb|Hne]; [subst b'; congruence|].
+            split; [exact P1|]. rewrite RP.nth_upd_ne by auto. exact P2. }
+    eapply Hfinal; [exact J2| | | |]; simpl; auto.
+    destruct (cached_key _ _ _ Idc Hf) as (Hk & _). rewrite Hkeys. exact Hk.
+  - (* new entry: our buffer becomes the cached value *)
+    destruct (J_dc_trans s0 o (R.Add (w_key wr)) h (Some (w_key wr, b)) J0) as (bo1 & J1 & _ & _ & F1 & F2 & F3 & F4 & F5 & F6 & F7 & F8); auto.
+    { intros h' i' Hh _. rewrite <- Ec. eapply app_keep; eauto. }
+    { rewrite <- Ec. split; [exact Hkeys|]. split; [eapply held_unfin; eauto|]. split; [eauto|]. split; [exact Hnow|].
+      exists (w_acc wr). split; [exact B2|exact Hcm0]. }
+    rewrite <- Ec in *. rewrite Edv in *.
+    eapply Hfinal; [exact J1| | | |]; auto.
+    rewrite Hkeys. rewrite <- keys_length. apply RP.nth_app_new.
+Qed.
+
+(* ------------------------------------------------------------------------------------------ *)
+(* the descriptor cache                                                                         *)
+(* ------------------------------------------------------------------------------------------ *)
+Lemma fval_some s o j : J s o -> j < length (R.ents (fc s)) -> exists f, nth_error (fval s) j = Some f.
+Proof.
+  intros Jo Hj. destruct (nth_error (fval s) j) as [f|] eqn:E; [eauto|].
+  apply nth_error_None in E. rewrite (j_fl _ _ Jo) in E. lia.
+Qed.
+
+Lemma J_fc_trans s o rop hrel newv :
+  J s o ->
+  (forall h' j, held (fc s) h' j -> h' <> hrel -> held (fst (R.step (fc s) rop)) h' j) ->
+  (forall r rd f h, nth_error (readers s) r = Some rd -> r_open rd = true -> r_kind rd = RFd f h -> h <> hrel) ->
+  match newv with
+  | None => keys (fst (R.step (fc s) rop)) = keys (fc s)
+  | Some (k, f) => keys (fst (R.step (fc s) rop)) = keys (fc s) ++ [k]
+        /\ R.callbacks (fst (R.step (fc s) rop)) (length (R.ents (fc s))) = 0
+        /\ (forall j, fo o f <> FValue j)
+        /\ (forall r rd c, nth_error (readers s) r = Some rd -> r_open rd = true -> r_kind rd <> ROwn f c)
+        /\ (exists w wr, nth_error (fds s) f = Some (w, true) /\ nth_error (writers s) w = Some wr /\ w_key wr = k)
+  end ->
+  let c' := fst (R.step (fc s) rop) in
+  let fv := match newv with None => fval s | Some (_, f) => fval s ++ [f] end in
+  let s1 := fc_apply s c' fv in
+  exists fo1, J s1 (mkOwn (bo o) fo1 (hd o) (hf o))
+     /\ (forall f, (forall j, fo o f <> FValue j) -> match newv with Some (_, f0) => f <> f0 | None => True end ->
+            fo1 f = fo o f /\ nth_error (fds s1) f = nth_error (fds s) f)
+     /\ dc s1 = dc s /\ dval s1 = dval s /\ fc s1 = c' /\ fval s1 = fv /\ bufs s1 = bufs s /\ pool s1 = pool s /\ dir s1 = dir s
+     /\ writers s1 = writers s /\ readers s1 = readers s /\ length (fds s1) = length (fds s).
+Proof.
+  intros Jo Hkeep Hrd Hnew.
+  pose proof (j_fc _ _ Jo) as Ifc.
+  destruct (fin_facts (fc s) rop Ifc) as (I' & Hlog & Hnd & Hfin1 & Hfin0).
+  remember (fst (R.step (fc s) rop)) as c' eqn:Ec. intros c'' fv s1. subst c''.
+  set (fin := finalised (fc s) c') in *.
+  set (fs := map (fun j => nth j fv 0) fin).
+  assert (Hs1 : s1 = fold_left close_fd fs (set_fc s c' fv)) by reflexivity.
+  destruct (close_all_spec fs (set_fc s c' fv)) as (A1 & A2 & A3 & A4 & A5 & A6 & A7 & A8 & A9 & A10 & A11 & A12).
+  rewrite <- Hs1 in *. simpl in A1, A2, A3, A4, A5, A6, A7, A8, A9, A10, A11, A12.
+  assert (Hlen' : length (R.ents c') = length fv).
+  { rewrite <- keys_length. unfold fv. destruct newv as [[k f]|].
+    - destruct Hnew as (Hk & _). rewrite Hk, !app_length, keys_length, (j_fl _ _ Jo). reflexivity.
+    - rewrite Hnew, keys_length, (j_fl _ _ Jo). reflexivity. }
+  assert (Hfv_old : forall j f, nth_error (fval s) j = Some f -> nth_error fv j = Some f).
+  { intros j f H. unfold fv. destruct newv as [[k f0]|]; [|exact H].
+    rewrite nth_error_app1; [exact H|]. eapply RP.nth_some_lt; eauto. }
+  assert (Hkeys_old : forall j k, nth_error (keys (fc s)) j = Some k -> nth_error (keys c') j = Some k).
+  { intros j k H. destruct newv as [[k0 f0]|].
+    - destruct Hnew as (Hk & _). rewrite Hk. rewrite nth_error_app1; [exact H|]. eapply RP.nth_some_lt; eauto.
+    - rewrite Hnew. exact H. }
+  assert (K1 : forall j, In j fin -> j < length (R.ents (fc s))).
+  { intros j Hin. destruct (Hfin1 _ Hin) as [_ H1].
+    assert (Hlt : j < length (R.ents c')).
+    { apply (RP.inv_log _ I'). rewrite Hlog. apply in_or_app. right. exact Hin. }
+    destruct newv as [[k f]|].
+    - destruct Hnew as (Hk & Hcb & _). rewrite <- keys_length, Hk, app_length, keys_length in Hlt. simpl in Hlt.
+      destruct (Nat.eq_dec j (length (R.ents (fc s)))) as [->|Hne]; [congruence|lia].
+    - rewrite <- keys_length, Hnew, keys_length in Hlt. exact Hlt. }
+  assert (K2 : forall j, In j fin -> exists f k, nth_error (keys (fc s)) j = Some k /\ nth_error (fval s) j = Some f
+                 /\ nth j fv 0 = f /\ fo o f = FValue j).
+  { intros j Hin. pose proof (K1 _ Hin) as Hlt. destruct (Hfin1 _ Hin) as [H0 _].
+    destruct (fval_some s o j Jo Hlt) as [f Hf].
+    destruct (nth_error (keys (fc s)) j) as [k|] eqn:Hk.
+    2:{ apply nth_error_None in Hk. rewrite keys_length in Hk. lia. }
+    destruct (j_fval _ _ Jo j k f Hk H0 Hf) as (P & _).
+    exists f, k. repeat split; auto. apply nth_of_nth_error. apply Hfv_old. exact Hf. }
+  assert (K3 : forall x, In x fs -> exists j, In j fin /\ nth_error (fval s) j = Some x /\ fo o x = FValue j).
+  { intros x Hin. apply in_map_iff in Hin. destruct Hin as (j & Hx & Hin).
+    destruct (K2 _ Hin) as (f & k & B1 & B2 & B3 & B4). exists j. rewrite <- Hx, B3. auto. }
+  assert (K5 : forall j f, nth_error (fval s) j = Some f -> j < length (R.ents (fc s)) -> R.callbacks c' j = 0 ->
+               R.callbacks (fc s) j = 0 /\ ~ In f fs).
+  { intros j f Hf Hlt Hcb.
+    assert (Hni : ~ In j fin) by (intros Hin; destruct (Hfin1 _ Hin); congruence).
+    rewrite (Hfin0 _ Hni) in Hcb. split; [exact Hcb|]. intros Hin.
+    destruct (K3 _ Hin) as (j' & Hin' & Hf' & Hfo').
+    destruct (nth_error (keys (fc s)) j) as [k|] eqn:Hk.
+    2:{ apply nth_error_None in Hk. rewrite keys_length in Hk. lia. }
+    destruct (j_fval _ _ Jo j k f Hk Hcb Hf) as (P & _). rewrite P in Hfo'. inv Hfo'. contradiction. }
+  set (fo1 := fun x => if in_dec Nat.eq_dec x fs then FNone
+                       else match newv with
+                            | Some (_, f0) => if Nat.eqb x f0 then FValue (length (R.ents (fc s))) else fo o x
+                            | None => fo o x
+                            end).
+  assert (Hfo1 : forall f, (forall j, fo o f <> FValue j) -> match newv with Some (_, f0) => f <> f0 | None => True end ->
+                   fo1 f = fo o f /\ nth_error (fds s1) f = nth_error (fds s) f).
+  { intros f Hnv Hnf.
+    assert (Hnin : ~ In f fs).
+    { intros Hin. destruct (K3 _ Hin) as (j & _ & _ & Hfo). eapply Hnv; eauto. }
+    split; [|apply A11; exact Hnin].
+    unfold fo1. destruct (in_dec Nat.eq_dec f fs) as [Hin|_]; [contradiction|].
+    destruct newv as [[k f0]|]; [|reflexivity]. destruct (Nat.eqb_spec f f0); [contradiction|reflexivity]. }
+  assert (Hcm : forall k v, committed s k v -> committed s1 k v).
+  { intros k v H. apply committed_W. rewrite A8. exact H. }
+  exists fo1. split; [|split; [exact Hfo1|repeat split; auto]].
+  constructor; simpl; rewrite ?A1, ?A2, ?A3, ?A4, ?A5, ?A6, ?A7, ?A8, ?A9.
+  - apply (j_dc _ _ Jo).
+  - exact I'.
+  - apply (j_dl _ _ Jo).
+  - symmetry. exact Hlen'.
+  - intros i k b B1 B2 B3. destruct (j_val _ _ Jo i k b B1 B2 B3) as (P & v & Q1 & Q2). split; [exact P|]. exists v. auto.
+  - apply (j_pool _ _ Jo).
+  - intros w wr Hw. eapply writer_ok_frame; [| | | | |apply (j_w _ _ Jo); exact Hw]; simpl; rewrite ?A1, ?A5; auto.
+  - apply (j_dir _ _ Jo).
+  - intros f w op H. destruct (A12 _ _ _ H) as [op0 H0]. apply (j_fds _ _ Jo _ _ _ H0).
+  - (* j_fval *)
+    intros j k f Hk Hcb Hf.
+    destruct (Nat.lt_ge_cases j (length (R.ents (fc s)))) as [Hlt|Hge].
+    + assert (Hf0 : nth_error (fval s) j = Some f).
+      { unfold fv in Hf. destruct newv as [[k0 f0]|]; [|exact Hf]. rewrite nth_error_app1 in Hf; [exact Hf|]. rewrite (j_fl _ _ Jo). exact Hlt. }
+      assert (Hk0 : nth_error (keys (fc s)) j = Some k).
+      { destruct (nth_error (keys (fc s)) j) as [k1|] eqn:E.
+        - rewrite (Hkeys_old _ _ E) in Hk. exact Hk.
+        - apply nth_error_None in E. rewrite keys_length in E. lia. }
+      destruct (K5 _ _ Hf0 Hlt Hcb) as [Hcb0 Hnin].
+      destruct (j_fval _ _ Jo j k f Hk0 Hcb0 Hf0) as (P & w & wr & Q1 & Q2 & Q3).
+      split.
+      * unfold fo1. destruct (in_dec Nat.eq_dec f fs) as [Hin|_]; [contradiction|].
+        destruct newv as [[k0 f0]|]; [|exact P]. destruct (Nat.eqb_spec f f0) as [->|_]; [|exact P].
+        destruct Hnew as (_ & _ & Hnv & _). exfalso. eapply Hnv; eauto.
+      * exists w, wr. rewrite A11 by exact Hnin. auto.
+    + destruct newv as [[k0 f0]|].
+      * destruct Hnew as (Hkk & Hcb0 & Hnv & Hnr & (w & wr & Hv1 & Hv2 & Hv3)).
+        assert (Hj : j = length (R.ents (fc s))).
+        { apply RP.nth_some_lt in Hf. unfold fv in Hf. rewrite app_length, (j_fl _ _ Jo) in Hf. simpl in Hf. lia. }
+        subst j. unfold fv in Hf. rewrite <- (j_fl _ _ Jo) in Hf. rewrite RP.nth_app_new in Hf. inv Hf.
+        rewrite Hkk in Hk. rewrite <- keys_length in Hk. rewrite RP.nth_app_new in Hk. inv Hk.
+        assert (Hnin : ~ In f fs).
+        { intros Hin. destruct (K3 _ Hin) as (j' & _ & _ & Hfo). eapply Hnv; eauto. }
+        split.
+        -- unfold fo1. destruct (in_dec Nat.eq_dec f fs) as [Hin|_]; [contradiction|]. rewrite Nat.eqb_refl. reflexivity.
+        -- exists w, wr. rewrite A11 by exact Hnin. auto.
+      * exfalso. apply RP.nth_some_lt in Hf. unfold fv in Hf. rewrite (j_fl _ _ Jo) in Hf. lia.
+  - (* j_r *)
+    intros r rd Hr Hop. pose proof (j_r _ _ Jo r rd Hr Hop) as Hok.
+    eapply reader_ok_frame; [| | | | | | | | | |exact Hok]; simpl; rewrite ?A1, ?A2, ?A3, ?A4, ?A5, ?A8; auto.
+    + intros f h j K Hh. apply Hkeep; [exact Hh|]. eapply Hrd; eauto.
+    + intros f k v Hkind (w & wr & G1 & G2 & G3 & G4 & G5). exists w, wr. repeat split; auto.
+      rewrite A11; [exact G1|]. intros Hin. destruct (K3 _ Hin) as (j' & Hin' & Hf' & Hfo').
+      destruct Hok as (_ & Hk). destruct Hkind as [[h K]|[c K]]; rewrite K in Hk.
+      * destruct Hk as (j & H1 & H2 & H3 & H4).
+        assert (Hlt : j < length (R.ents (fc s))) by (eapply held_lt; eauto).
+        assert (Hh' : held c' h j) by (apply Hkeep; [exact H1|eapply Hrd; eauto]).
+        destruct (K5 j f H3 Hlt (held_unfin _ _ _ I' Hh')) as [_ Hnin]. contradiction.
+      * destruct Hk as (H1 & _). congruence.
+    + intros f c K Hfo. unfold fo1. destruct (in_dec Nat.eq_dec f fs) as [Hin|_].
+      * destruct (K3 _ Hin) as (j' & _ & _ & Hfo'). congruence.
+      * destruct newv as [[k0 f0]|]; [|exact Hfo]. destruct (Nat.eqb_spec f f0) as [->|_]; [|exact Hfo].
+        destruct Hnew as (_ & _ & _ & Hnr & _). exfalso. eapply Hnr; eauto.
+Qed.
+
+Lemma J_fc_release s o h :
+  J s o ->
+  (forall r rd f h', nth_error (readers s) r = Some rd -> r_open rd = true -> r_kind rd = RFd f h' -> h' <> h) ->
+  exists o', J (fc_release s h) o' /\ readers (fc_release s h) = readers s.
+Proof.
+  intros Jo Hr.
+  destruct (J_fc_trans s o (R.Release h false) h None Jo) as (fo1 & J1 & _ & F); auto.
+  - intros h' j. apply rel_keep.
+  - apply (step_rel (fc s) h).
+  - eexists. split; [exact J1|]. apply F.
+Qed.
+
+Lemma claims_old_f s o : J s o ->
+  forall r rd f h, nth_error (readers s) r = Some rd -> r_open rd = true -> r_kind rd = RFd f h -> h <> length (R.hs (fc s)).
+Proof.
+  intros Jo r rd f h Hr Hop K. destruct (j_r _ _ Jo r rd Hr Hop) as (_ & Hk). rewrite K in Hk.
+  destruct Hk as (j & Hh & _). apply RP.nth_some_lt in Hh. lia.
+Qed.
+
+Lemma J_get_fd s o k : J s o -> exists o', J (fst (get_fd s k)) o'.
+Proof.
+  intros Jo. unfold get_fd. destruct (R.step (fc s) (R.Get k)) as [c' r] eqn:E.
+  destruct r as [[j fl]|]; [|simpl; eauto].
+  destruct (step_get_hit _ _ _ _ _ E) as (Hf & Hhs & Hkeys).
+  assert (Ec : c' = fst (R.step (fc s) (R.Get k))) by (rewrite E; reflexivity).
+  pose proof (j_fc _ _ Jo) as Ifc.
+  destruct (cached_key _ _ _ Ifc Hf) as (Hk & Hcb & Hlt).
+  destruct (fval_some s o j Jo Hlt) as [f Hfv].
+  destruct (j_fval _ _ Jo j k f Hk Hcb Hfv) as (Hfo & w & wr & Hfd & Hw & Hkey).
+  destruct (j_fds _ _ Jo _ _ _ Hfd) as (wr2 & Hw2 & Hren). rewrite Hw in Hw2. injection Hw2 as Hwr. subst wr2.
+  pose proof (claims_old_f s o Jo) as Hcr.
+  set (h := length (R.hs (fc s))) in *.
+  destruct (J_fc_trans s o (R.Get k) h None Jo) as (fo1 & J1 & Hfo1 & F1 & F2 & F3 & F4 & F5 & F6 & F7 & F8 & F9 & F10); auto.
+  { intros h' j' Hh _. rewrite <- Ec. eapply app_keep; eauto. }
+  { rewrite <- Ec. exact Hkeys. }
+  rewrite <- Ec in *. simpl.
+  set (s1 := fc_apply s c' (fval s)) in *.
+  assert (Hheld : held c' h j) by (unfold held; rewrite Hhs; unfold h; apply RP.nth_app_new).
+  assert (Hnth : nth j (fval s) 0 = f) by (apply nth_of_nth_error; exact Hfv).
+  rewrite Hnth.
+  assert (Hcont : fd_content s f = Some (w_file wr)).
+  { unfold fd_content, file_of. rewrite Hfd, Hw. reflexivity. }
+  rewrite Hcont.
+  set (r := length (readers s)).
+  exists (mkOwn (bo o) fo1 (hd o) (fun x => if Nat.eqb x h then HReader r else hf o x)).
+  assert (Hr1 : length (readers s1) = r) by (rewrite F9; reflexivity).
+  (* the cached descriptor is still open after the transition *)
+  assert (Hfd1 : nth_error (fds s1) f = Some (w, true)).
+  { destruct (j_fval _ _ J1 j k f) as (_ & w' & wr' & Q1 & Q2 & Q3).
+    - rewrite F3. rewrite Hkeys. exact Hk.
+    - rewrite F3. apply (held_unfin c' h j); [rewrite <- F3; apply (j_fc _ _ J1)|exact Hheld].
+    - rewrite F4. exact Hfv.
+    - simpl in Q1. destruct (j_fds _ _ J1 _ _ _ Q1) as (wr3 & _).
+      (* same inode: descriptors never change their file *)
+      unfold s1, fc_apply in Q1.
+      destruct (close_all_spec (map (fun j0 : nat => nth j0 (fval s) 0) (finalised (fc s) c')) (set_fc s c' (fval s)))
+        as (_ & _ & _ & _ & _ & _ & _ & _ & _ & _ & _ & A12).
+      destruct (A12 _ _ _ Q1) as [op0 H0]. simpl in H0. rewrite Hfd in H0. inv H0. exact Q1. }
+  eapply J_add_reader; [exact J1|reflexivity| | | | | |]; simpl; auto.
+  - intros r' rd0 f' h' Hr' Hop K Hhf. rewrite F9 in Hr'. destruct (Nat.eqb_spec h' h) as [->|_]; [|exact Hhf].
+    exfalso. eapply Hcr; eauto.
+  - rewrite Hr1. split.
+    + simpl. apply committed_W. simpl. rewrite F8. apply (proj1 (committed_W s _ _)).
+      destruct (j_w _ _ Jo _ _ Hw) as (_ & Hrn & _). rewrite <- Hkey. apply Hrn. exact Hren.
+    + simpl. exists j. rewrite F3, F4. split; [exact Hheld|]. split; [rewrite Nat.eqb_refl; reflexivity|].
+      split; [exact Hfv|]. exists w, wr. rewrite F8. auto.
+Qed.
+
+Lemma J_get_open s o k d : J s o -> exists o', J (fst (get_open s k d)) o'.
+Proof.
+  intros Jo. unfold get_open. destruct (find (dir s) k) as [w|] eqn:Hf; [|simpl; eauto]. simpl.
+  assert (Hin : In (k, w) (dir s)).
+  { clear - Hf. induction (dir s) as [|[k' x] l IH]; simpl in *; [discriminate|].
+    destruct (Nat.eqb_spec k' k) as [->|Hne]; [inv Hf; auto|right; auto]. }
+  destruct (j_dir _ _ Jo _ _ Hin) as (wr & Hw & Hkey & Hren).
+  set (f := length (fds s)). set (r := length (readers s)).
+  set (s1 := set_fds s (fds s ++ [(w, true)])).
+  assert (J1 : J s1 o).
+  { destruct Jo. constructor; simpl; try assumption.
+    - intros f' w' op H. destruct (Nat.eq_dec f' (length (fds s))) as [->|Hne].
+      + rewrite RP.nth_app_new in H. inv H. eauto.
+      + rewrite nth_app_other in H by exact Hne. eapply j_fds0; eauto.
+    - intros j k' f' A B C. destruct (j_fval0 j k' f' A B C) as (P & w' & wr' & Q1 & Q2 & Q3). split; [exact P|].
+      exists w', wr'. split; [|auto]. rewrite nth_error_app1; [exact Q1|]. eapply RP.nth_some_lt; eauto.
+    - intros r' rd' A B. eapply reader_ok_frame; [| | | | | | | | | |apply j_r0; eauto]; simpl; auto.
+      intros f' k' v _ (w' & wr' & G1 & G2). exists w', wr'. split; [|exact G2].
+      rewrite nth_error_app1; [exact G1|]. eapply RP.nth_some_lt; eauto. }
+  exists (mkOwn (bo o) (fun x => if Nat.eqb x f then FReader r else fo o x) (hd o) (hf o)).
+  assert (Hfile : file_of s w = w_file wr) by (unfold file_of; rewrite Hw; reflexivity).
+  rewrite Hfile.
+  eapply (J_add_reader s1 o); [exact J1|reflexivity| | | | | |]; simpl; auto.
+  - intros r' rd0 f' c Hr' Hop K Hfo. destruct (Nat.eqb_spec f' f) as [->|_]; [|exact Hfo].
+    exfalso. destruct (j_r _ _ Jo r' rd0 Hr' Hop) as (_ & Hk). rewrite K in Hk. destruct Hk as (_ & w' & wr' & G1 & _).
+    apply RP.nth_some_lt in G1. unfold f in G1. lia.
+  - intros j k' f' A B C. destruct (Nat.eqb_spec f' f) as [->|_]; [|reflexivity].
+    exfalso. destruct (j_fval _ _ Jo j k' f A B C) as (_ & w' & wr' & G1 & _). apply RP.nth_some_lt in G1. unfold f in G1. lia.
+  - split.
+    + simpl. destruct (j_w _ _ Jo _ _ Hw) as (_ & Hrn & _). rewrite <- Hkey. apply Hrn. exact Hren.
+    + simpl. rewrite Nat.eqb_refl. split; [reflexivity|]. exists w, wr. split; [unfold f; apply RP.nth_app_new|auto].
+Qed.
+
+(* closing a descriptor that only a (now closed) reader owned *)
+Lemma J_close_own s o f r : J s o -> fo o f = FReader r ->
+  (forall rd, nth_error (readers s) r = Some rd -> r_open rd = false) ->
+  J (close_fd s f) o.
+Proof.
+  intros Jo Hfo Hcl. unfold close_fd. destruct (nth_error (fds s) f) as [[w op]|] eqn:Hf; [|exact Jo].
+  destruct Jo. constructor; simpl; try assumption.
+  - intros f' w' op' H. apply nth_upd_cases in H. destruct H as [(-> & H & _)|[_ H]]; [inv H|]; eapply j_fds0; eauto.
+  - intros j k f' A B C. destruct (j_fval0 j k f' A B C) as (P & w' & wr' & Q1 & Q2 & Q3). split; [exact P|].
+    exists w', wr'. split; [|auto]. rewrite RP.nth_upd_ne; [exact Q1|]. intros ->. congruence.
+  - intros r' rd' A B. pose proof (j_r0 r' rd' A B) as Hok.
+    eapply reader_ok_frame; [| | | | | | | | | |exact Hok]; simpl; auto.
+    intros f' k v Hkind (w' & wr' & G1 & G2). exists w', wr'. split; [|exact G2].
+    rewrite RP.nth_upd_ne; [exact G1|]. intros ->.
+    destruct Hok as (_ & Hk). destruct Hkind as [[h K]|[c K]]; rewrite K in Hk.
+    + destruct Hk as (j & H1 & H2 & H3 & H4).
+      assert (Hlt : j < length (R.ents (fc s))) by (eapply held_lt; eauto).
+      destruct (nth_error (keys (fc s)) j) as [k'|] eqn:Hk'.
+      * destruct (j_fval0 j k' f' Hk' (held_unfin _ _ _ j_fc0 H1) H3) as (P & _). congruence.
+      * apply nth_error_None in Hk'. rewrite keys_length in Hk'. lia.
+    + destruct Hk as (H1 & _). rewrite Hfo in H1. inv H1. rewrite (Hcl _ A) in B. discriminate.
+Qed.
+
+Lemma close_fd_readers s f : readers (close_fd s f) = readers s.
+Proof. unfold close_fd. destruct (nth_error (fds s) f) as [[w op]|]; reflexivity. Qed.
+
+Lemma J_fd_put s o r k f :
+  J s o -> fo o f = FReader r ->
+  (forall rd, nth_error (readers s) r = Some rd -> r_open rd = false) ->
+  (exists w wr, nth_error (fds s) f = Some (w, true) /\ nth_error (writers s) w = Some wr /\ w_key wr = k) ->
+  exists o', J (fd_put s k f) o'.
+Proof.
+  intros Jo Hfo Hcl Hfd. unfold fd_put.
+  destruct (R.step (fc s) (R.Add k)) as [c1 r1] eqn:E.
+  assert (Ec : c1 = fst (R.step (fc s) (R.Add k))) by (rewrite E; reflexivity).
+  destruct (step_add_res _ _ _ _ E) as (j & added & -> & Hhs & Hcase).
+  pose proof (j_fc _ _ Jo) as Ifc.
+  assert (Ifc' : RP.Inv c1) by (rewrite Ec; apply RP.step_inv; exact Ifc).
+  pose proof (claims_old_f s o Jo) as Hcr.
+  set (h := length (R.hs (fc s))) in *.
+  assert (Hheld : held c1 h j) by (unfold held; rewrite Hhs; unfold h; apply RP.nth_app_new).
+  destruct Hcase as [(-> & Hf & Hkeys)|(-> & Hf & -> & Hkeys)].
+  - destruct (J_fc_trans s o (R.Add k) h None Jo) as (fo1 & J1 & Hfo1 & F1 & F2 & F3 & F4 & F5 & F6 & F7 & F8 & F9 & F10); auto.
+    { intros h' j' Hh _. rewrite <- Ec. eapply app_keep; eauto. }
+    { rewrite <- Ec. exact Hkeys. }
+    rewrite <- Ec in *.
+    set (s1 := fc_apply s c1 (fval s)) in *.
+    destruct (Hfo1 f) as [Hf1 _]; [intros j'; congruence|exact I|].
+    assert (J2 : J (close_fd s1 f) (mkOwn (bo o) fo1 (hd o) (hf o))).
+    { eapply (J_close_own s1 _ f r); [exact J1|simpl; congruence|]. rewrite F9. exact Hcl. }
+    destruct (J_fc_release _ _ h J2) as (o' & J3 & _).
+    { intros r' rd' f' h' Hr' Hop K. rewrite close_fd_readers, F9 in Hr'. eapply Hcr; eauto. }
+    eauto.
+  - destruct Hfd as (w & wr & Hv1 & Hv2 & Hv3).
+    destruct (J_fc_trans s o (R.Add k) h (Some (k, f)) Jo) as (fo1 & J1 & Hfo1 & F1 & F2 & F3 & F4 & F5 & F6 & F7 & F8 & F9 & F10); auto.
+    { intros h' j' Hh _. rewrite <- Ec. eapply app_keep; eauto. }
+    { rewrite <- Ec. split; [exact Hkeys|]. split; [eapply held_unfin; eauto|]. split; [intros j'; congruence|]. split.
+      - intros r' rd' c Hr' Hop K. destruct (j_r _ _ Jo r' rd' Hr' Hop) as (_ & Hk). rewrite K in Hk. destruct Hk as (H1 & _).
+        rewrite Hfo in H1. inv H1. rewrite (Hcl _ Hr') in Hop. discriminate.
+      - eauto. }
+    rewrite <- Ec in *.
+    destruct (J_fc_release _ _ h J1) as (o' & J3 & _).
+    { intros r' rd' f' h' Hr' Hop K. rewrite F9 in Hr'. eapply Hcr; eauto. }
+    eauto.
+Qed.
+
+Lemma J_closer s o r : J s o -> exists o', J (do_closer s r) o'.
+Proof.
+  intros Jo. unfold do_closer. destruct (nth_error (readers s) r) as [rd|] eqn:Hr; [|eauto].
+  destruct (r_open rd) eqn:Hop; [|eauto].
+  pose proof (J_mark_closed s o r rd Jo Hr) as J0.
+  set (s0 := set_readers s (R.upd (readers s) r (rd_close rd))) in *.
+  assert (Hrl : r < length (readers s)) by (eapply RP.nth_some_lt; eauto).
+  assert (Hcl : forall rd', nth_error (readers s0) r = Some rd' -> r_open rd' = false).
+  { intros rd' H. simpl in H. rewrite RP.nth_upd_eq in H by exact Hrl. inv H. reflexivity. }
+  destruct (j_r _ _ Jo r rd Hr Hop) as (_ & Hk).
+  destruct (r_kind rd) as [b len h|f h|f c] eqn:K.
+  - eapply J_closer_buf; eauto.
+  - destruct Hk as (j & _ & Hhf & _).
+    destruct (J_fc_release s0 o h J0) as (o' & J1 & _); [|eauto].
+    simpl. intros r' rd' f' h' Hr' Hop' K' ->. apply nth_upd_cases in Hr'.
+    destruct Hr' as [(-> & -> & _)|[Hne Hr']]; [discriminate|].
+    destruct (j_r _ _ Jo r' rd' Hr' Hop') as (_ & Hk'). rewrite K' in Hk'. destruct Hk' as (j' & _ & Hhf' & _). congruence.
+  - destruct Hk as (Hfo & w & wr & G1 & G2 & G3 & G4 & G5). destruct c.
+    + eapply (J_fd_put s0 o r); eauto.
+    + exists o. eapply (J_close_own s0 o f r); eauto.
+Qed.
+
+Lemma J_get s o k d : J s o -> exists o', J (fst (do_get s k d)) o'.
+Proof.
+  intros Jo. unfold do_get. destruct d; [eapply J_get_open; exact Jo|].
+  destruct (is_hit (snd (get_mem s k))); [eapply J_get_mem; exact Jo|].
+  destruct (is_hit (snd (get_fd s k))); [eapply J_get_fd; exact Jo|eapply J_get_open; exact Jo].
+Qed.
+
+Theorem J_step s o op : J s o -> exists o', J (fst (step s op)) o'.
+Proof.
+  intros Jo. destruct op; simpl.
+  - eapply J_add; exact Jo.
+  - eexists. eapply J_write; exact Jo.
+  - eapply J_commit; exact Jo.
+  - eexists. eapply J_pwrite; exact Jo.
+  - eexists. eapply J_pfail; exact Jo.
+  - eexists. eapply J_prename; exact Jo.
+  - eapply J_pdone; exact Jo.
+  - eapply J_abort; exact Jo.
+  - eexists. eapply J_closew; exact Jo.
+  - eapply J_get; exact Jo.
+  - eapply J_get_mem; exact Jo.
+  - eapply J_get_fd; exact Jo.
+  - eapply J_get_open; exact Jo.
+  - eauto.
+  - eapply J_closer; exact Jo.
+  - eauto.
+Qed.
+
+Theorem J_exec os : forall s o, J s o -> exists o', J (exec s os) o'.
+Proof.
+  induction os as [|op os IH]; intros s o Jo; simpl; [eauto|].
+  destruct (J_step s o op Jo) as [o1 J1]. eapply IH; eauto.
+Qed.
+
+Theorem J_reach dcap fcap os : exists o, J (exec (init dcap fcap) os) o.
+Proof. eapply J_exec. apply J_init. Qed.
+
+(* ------------------------------------------------------------------------------------------ *)
+(* Part 3: consequences                                                                         *)
+(* ------------------------------------------------------------------------------------------ *)
+Lemma find_in_dir l k w : find l k = Some w -> In (k, w) l.
+Proof.
+  induction l as [|[k' x] l IH]; simpl; [discriminate|].
+  destruct (Nat.eqb_spec k' k) as [->|Hne]; intros H; [inv H; auto|right; auto].
+Qed.
+
+Lemma read_of_J s o r rd : J s o -> nth_error (readers s) r = Some rd -> r_open rd = true ->
+  committed s (r_key rd) (r_val rd) /\ forall off n, read s r off n = OData (slice off n (r_val rd)).
+Proof.
+  intros Jo Hr Hop. destruct (j_r _ _ Jo r rd Hr Hop) as (Hcm & Hk). split; [exact Hcm|].
+  intros off n. unfold read. rewrite Hr, Hop.
+  destruct (r_kind rd) as [b len h|f h|f c].
+  - destruct Hk as (i & _ & _ & _ & Hb & Hlen).
+    assert (Hba : buf_at s b = r_val rd) by (unfold buf_at; apply nth_of_nth_error; exact Hb).
+    rewrite Hba, Hlen, firstn_all. reflexivity.
+  - destruct Hk as (j & _ & _ & _ & w & wr & G1 & G2 & _ & _ & G5). unfold fd_content, file_of. rewrite G1, G2, G5. reflexivity.
+  - destruct Hk as (_ & w & wr & G1 & G2 & _ & _ & G5). unfold fd_content, file_of. rewrite G1, G2, G5. reflexivity.
+Qed.
+
+Lemma hit_is_committed dcap fcap os r rd :
+  let s := exec (init dcap fcap) os in
+  nth_error (readers s) r = Some rd -> r_open rd = true ->
+  committed s (r_key rd) (r_val rd) /\ forall off n, read s r off n = OData (slice off n (r_val rd)).
+Proof. intros s Hr Hop. destruct (J_reach dcap fcap os) as [o Jo]. eapply read_of_J; eauto. Qed.
+
+(* what is linked at the final path of a key is always one complete committed value of that key *)
+Lemma stored_is_committed dcap fcap os k :
+  let s := exec (init dcap fcap) os in
+  match do_peek s k with
+  | OData v => committed s k v
+  | OMiss => True
+  | _ => False
+  end.
+Proof.
+  intros s. destruct (J_reach dcap fcap os) as [o Jo]. fold s in Jo. unfold do_peek.
+  destruct (find (dir s) k) as [w|] eqn:Hf; [|exact I].
+  destruct (j_dir _ _ Jo _ _ (find_in_dir _ _ _ Hf)) as (wr & Hw & Hk & Hren).
+  unfold file_of. rewrite Hw. destruct (j_w _ _ Jo _ _ Hw) as (_ & Hr & _). rewrite <- Hk. apply Hr. exact Hren.
+Qed.
+
+(* no recycling / closing under a reader, no recycling under a pending persist step *)
+Lemma no_recycle_under_reader dcap fcap os r rd :
+  let s := exec (init dcap fcap) os in
+  nth_error (readers s) r = Some rd -> r_open rd = true ->
+  match r_kind rd with
+  | RBuf b len h =>
+      nth_error (bufs s) b = Some (r_val rd) /\ ~ In b (pool s) /\
+      (forall w wr, nth_error (writers s) w = Some wr -> w_status wr = WOpen -> w_buf wr <> Some b)
+  | RFd f _ | ROwn f _ => fd_content s f = Some (r_val rd)
+  end.
+Proof.
+  intros s Hr Hop. destruct (J_reach dcap fcap os) as [o Jo]. fold s in Jo.
+  destruct (j_r _ _ Jo r rd Hr Hop) as (Hcm & Hk).
+  destruct (r_kind rd) as [b len h|f h|f c].
+  - destruct Hk as (i & Hh & _ & Hdv & Hb & _). split; [exact Hb|].
+    pose proof (j_dc _ _ Jo) as Idc.
+    assert (Hlt : i < length (R.ents (dc s))) by (eapply held_lt; eauto).
+    destruct (nth_error (keys (dc s)) i) as [k|] eqn:Hk.
+    2:{ apply nth_error_None in Hk. rewrite keys_length in Hk. lia. }
+    destruct (j_val _ _ Jo i k b Hk (held_unfin _ _ _ Idc Hh) Hdv) as (Hbo & _).
+    split.
+    + intros Hin. destruct (j_pool _ _ Jo) as [_ Hp]. destruct (Hp _ Hin). congruence.
+    + intros w wr Hw Hopw Hbuf. destruct (j_w _ _ Jo _ _ Hw) as (_ & _ & Ho'). destruct (Ho' Hopw) as (_ & _ & C).
+      rewrite Hbuf in C. destruct C as (C1 & _). congruence.
+  - destruct Hk as (j & _ & _ & _ & w & wr & G1 & G2 & _ & _ & G5). unfold fd_content, file_of. rewrite G1, G2, G5. reflexivity.
+  - destruct Hk as (_ & w & wr & G1 & G2 & _ & _ & G5). unfold fd_content, file_of. rewrite G1, G2, G5. reflexivity.
+Qed.
+
+Lemma no_recycle_under_persist dcap fcap os w wr stg h i :
+  let s := exec (init dcap fcap) os in
+  nth_error (writers s) w = Some wr -> w_ps wr = PStage stg h i ->
+  exists b, nth_error (dval s) i = Some b /\ committed s (w_key wr) (cached_bytes s i) /\ ~ In b (pool s) /\
+      (forall w' wr', nth_error (writers s) w' = Some wr' -> w_status wr' = WOpen -> w_buf wr' <> Some b).
+Proof.
+  intros s Hw Hps. destruct (J_reach dcap fcap os) as [o Jo]. fold s in Jo.
+  destruct (j_w _ _ Jo _ _ Hw) as (Hs & _). unfold stage_ok in Hs. rewrite Hps in Hs.
+  destruct Hs as (S1 & _ & _ & S4 & _).
+  destruct (held_value s o h i _ Jo S1 S4) as (b & v & Hb & Hbo & Hv & Hcm & Hcb).
+  exists b. split; [exact Hb|]. split; [rewrite Hcb; exact Hcm|]. split.
+  - intros Hin. destruct (j_pool _ _ Jo) as [_ Hp]. destruct (Hp _ Hin). congruence.
+  - intros w' wr' Hw' Hopw Hbuf. destruct (j_w _ _ Jo _ _ Hw') as (_ & _ & Ho'). destruct (Ho' Hopw) as (_ & _ & C).
+    rewrite Hbuf in C. destruct C as (C1 & _). congruence.
+Qed.
+
+(* the pool only ever holds empty buffers, each once: what Add hands out is clean *)
+Lemma pool_clean dcap fcap os :
+  let s := exec (init dcap fcap) os in
+  NoDup (pool s) /\ forall b, In b (pool s) -> nth_error (bufs s) b = Some [].
+Proof.
+  intros s. destruct (J_reach dcap fcap os) as [o Jo]. fold s in Jo. destruct (j_pool _ _ Jo) as [Hnd Hp].
+  split; [exact Hnd|]. intros b Hin. apply (Hp _ Hin).
+Qed.
+
+(* ------------------------------------------------------------------------------------------ *)
+(* MemoryCache                                                                                  *)
+(* ------------------------------------------------------------------------------------------ *)
+Definition mwbuf (s : mst) (w : nat) : bytes := match nth_error (m_ws s) w with Some wr => mw_buf wr | None => [] end.
+
+Record MJ (s : mst) : Prop := mkMJ {
+  mj_w : forall w wr, nth_error (m_ws s) w = Some wr -> mw_buf wr = mw_acc wr;
+  mj_map : forall k w, In (k, w) (m_map s) -> exists wr, nth_error (m_ws s) w = Some wr /\ mw_key wr = k /\ mw_status wr = WCommitted;
+  mj_r : forall r rd, nth_error (m_rs s) r = Some rd -> mr_open rd = true ->
+           exists wr, nth_error (m_ws s) (mr_w rd) = Some wr /\ mw_key wr = mr_key rd /\ mw_status wr = WCommitted
+                      /\ mw_buf wr = mr_val rd /\ mr_len rd = length (mr_val rd)
+}.
+
+Lemma MJ_init : MJ minit.
+Proof.
+  constructor; simpl.
+  - intros w wr H. rewrite nth_nil in H. discriminate.
+  - intros k w [].
+  - intros r rd H. rewrite nth_nil in H. discriminate.
+Qed.
+
+Lemma mactive_open wr : mw_active wr = true -> mw_status wr = WOpen.
+Proof. unfold mw_active. destruct (mw_status wr); auto; discriminate. Qed.
+
+(* rewriting one writer record that is not committed yet, or keeping key/buf/status of a committed one *)
+Lemma MJ_upd s w0 wr0 wr' mp :
+  MJ s -> nth_error (m_ws s) w0 = Some wr0 ->
+  mw_buf wr' = mw_acc wr' -> mw_key wr' = mw_key wr0 ->
+  (mw_status wr0 = WCommitted -> mw_status wr' = WCommitted /\ mw_buf wr' = mw_buf wr0) ->
+  (forall k w, In (k, w) mp -> In (k, w) (m_map s) \/ (w = w0 /\ k = mw_key wr' /\ mw_status wr' = WCommitted)) ->
+  MJ (mkMst mp (R.upd (m_ws s) w0 wr') (m_rs s)).
+Proof.
+  intros M H0 Hb Hk Hc Hm. assert (Hl : w0 < length (m_ws s)) by (eapply RP.nth_some_lt; eauto).
+  destruct M. constructor; simpl.
+  - intros w wr H. apply nth_upd_cases in H. destruct H as [(-> & -> & _)|[_ H]]; eauto.
+  - intros k w H. destruct (Hm _ _ H) as [Hin|(-> & -> & Hs)].
+    + destruct (mj_map0 _ _ Hin) as (wr & A & B & C). destruct (Nat.eq_dec w w0) as [->|Hne].
+      * rewrite H0 in A. inv A. exists wr'. split; [apply RP.nth_upd_eq; exact Hl|]. split; [exact Hk|apply Hc; exact C].
+      * exists wr. rewrite RP.nth_upd_ne by auto. auto.
+    + exists wr'. split; [apply RP.nth_upd_eq; exact Hl|auto].
+  - intros r rd H Hop. destruct (mj_r0 r rd H Hop) as (wr & A & B & C & D & E).
+    destruct (Nat.eq_dec (mr_w rd) w0) as [Heq|Hne].
+    + rewrite Heq in *. rewrite H0 in A. inv A. destruct (Hc C) as [C' D']. exists wr'.
+      split; [apply RP.nth_upd_eq; exact Hl|]. repeat split; auto; congruence.
+    + exists wr. rewrite RP.nth_upd_ne by auto. auto.
+Qed.
+
+Lemma MJ_step s o : MJ s -> MJ (fst (mstep s o)).
+Proof.
+  intros M. destruct o; simpl; try exact M.
+  - (* Add *) destruct M. constructor; simpl.
+    + intros w wr H. destruct (Nat.eq_dec w (length (m_ws s))) as [->|Hne].
+      * rewrite RP.nth_app_new in H. inv H. reflexivity.
+      * rewrite nth_app_other in H by exact Hne. eauto.
+    + intros k' w H. destruct (mj_map0 _ _ H) as (wr & A & B). exists wr. split; [|exact B].
+      rewrite nth_error_app1; [exact A|]. eapply RP.nth_some_lt; eauto.
+    + intros r rd H Hop. destruct (mj_r0 r rd H Hop) as (wr & A & B). exists wr. split; [|exact B].
+      rewrite nth_error_app1; [exact A|]. eapply RP.nth_some_lt; eauto.
+  - (* Write *) destruct (nth_error (m_ws s) w) as [wr|] eqn:Hw; [|exact M].
+    destruct (mw_active wr) eqn:Ha; [|exact M]. pose proof (mactive_open _ Ha) as Hop. simpl.
+    eapply MJ_upd; eauto; simpl; try (rewrite Hop; discriminate); try (apply (mj_w _ M _ _ Hw)); auto.
+    rewrite (mj_w _ M _ _ Hw). reflexivity.
+  - (* Commit *) destruct (nth_error (m_ws s) w) as [wr|] eqn:Hw; [|exact M].
+    destruct (mw_active wr) eqn:Ha; [|exact M]. pose proof (mactive_open _ Ha) as Hop. simpl.
+    eapply MJ_upd; eauto; simpl; try (rewrite Hop; discriminate); try (apply (mj_w _ M _ _ Hw)); auto.
+    intros k w' [H|H]; [inv H; right; auto|left; exact H].
+  - (* Abort *) destruct (nth_error (m_ws s) w) as [wr|] eqn:Hw; [|exact M].
+    destruct (mw_active wr) eqn:Ha; [|exact M]. pose proof (mactive_open _ Ha) as Hop. simpl.
+    eapply MJ_upd; eauto; simpl; try (rewrite Hop; discriminate); try (apply (mj_w _ M _ _ Hw)); auto.
+  - (* CloseW *) destruct (nth_error (m_ws s) w) as [wr|] eqn:Hw; [|exact M]. simpl.
+    eapply MJ_upd; eauto; simpl; try (apply (mj_w _ M _ _ Hw)); auto.
+  - (* Get *) unfold m_get. destruct (find (m_map s) k) as [w|] eqn:Hf; [|exact M]. simpl.
+    destruct (mj_map _ M _ _ (find_in_dir _ _ _ Hf)) as (wr & A & B & C). rewrite A.
+    destruct M. constructor; simpl; auto.
+    intros r rd H Hop. destruct (Nat.eq_dec r (length (m_rs s))) as [->|Hne].
+    + rewrite RP.nth_app_new in H. inv H. simpl. exists wr. auto.
+    + rewrite nth_app_other in H by exact Hne. eauto.
+  - (* GetMem *) unfold m_get. destruct (find (m_map s) k) as [w|] eqn:Hf; [|exact M]. simpl.
+    destruct (mj_map _ M _ _ (find_in_dir _ _ _ Hf)) as (wr & A & B & C). rewrite A.
+    destruct M. constructor; simpl; auto.
+    intros r rd H Hop. destruct (Nat.eq_dec r (length (m_rs s))) as [->|Hne].
+    + rewrite RP.nth_app_new in H. inv H. simpl. exists wr. auto.
+    + rewrite nth_app_other in H by exact Hne. eauto.
+  - (* ReadAt *) destruct (nth_error (m_rs s) r) as [rd|]; [|exact M]. destruct (mr_open rd); exact M.
+  - (* CloseR *) destruct (nth_error (m_rs s) r) as [rd|] eqn:Hr; [|exact M]. simpl.
+    destruct M. constructor; simpl; auto.
+    intros r' rd' H Hop. apply nth_upd_cases in H. destruct H as [(-> & -> & _)|[_ H]]; [discriminate|eauto].
+Qed.
+
+Lemma MJ_reach os : MJ (mexec minit os).
+Proof.
+  assert (H : forall s, MJ s -> MJ (mexec s os)).
+  { induction os as [|o os IH]; intros s M; simpl; [exact M|]. apply IH. apply MJ_step. exact M. }
+  apply H. apply MJ_init.
+Qed.
+
+Lemma mem_hit_is_committed os r rd :
+  let s := mexec minit os in
+  nth_error (m_rs s) r = Some rd -> mr_open rd = true ->
+  mcommitted s (mr_key rd) (mr_val rd) /\
+  forall off n, snd (mstep s (ReadAt r off n)) = OData (slice off n (mr_val rd)).
+Proof.
+  intros s Hr Hop. pose proof (MJ_reach os) as M. fold s in M.
+  destruct (mj_r _ M r rd Hr Hop) as (wr & A & B & C & D & E). split.
+  - exists (mr_w rd), wr. repeat split; auto. rewrite <- (mj_w _ M _ _ A). exact D.
+  - intros off n. simpl. rewrite Hr, Hop. simpl. rewrite A, D, E, firstn_all. reflexivity.
+Qed.
+
+(* ------------------------------------------------------------------------------------------ *)
+(* a reader record is never rewritten except by its own Close: key, kind and value are fixed    *)
+(* ------------------------------------------------------------------------------------------ *)
+Lemma readers_dc_apply s c dv : readers (dc_apply s c dv) = readers s.
+Proof. unfold dc_apply. destruct (recycle_all_spec (map (fun i => nth i dv 0) (finalised (dc s) c)) (set_dc s c dv)) as (_ & _ & _ & _ & _ & _ & _ & A8 & _). exact A8. Qed.
+Lemma readers_fc_apply s c fv : readers (fc_apply s c fv) = readers s.
+Proof. unfold fc_apply. destruct (close_all_spec (map (fun j => nth j fv 0) (finalised (fc s) c)) (set_fc s c fv)) as (_ & _ & _ & _ & _ & _ & _ & _ & A9 & _). exact A9. Qed.
+
+Definition rstep_shape (rs rs' : list reader) : Prop :=
+  rs' = rs \/ (exists rd, rs' = rs ++ [rd]) \/ (exists r rd, nth_error rs r = Some rd /\ rs' = R.upd rs r (rd_close rd)).
+
+Lemma get_mem_readers s k : rstep_shape (readers s) (readers (fst (get_mem s k))).
+Proof.
+  unfold get_mem. destruct (R.step (dc s) (R.Get k)) as [c' [[i fl]|]]; simpl; [|left; reflexivity].
+  right. left. rewrite readers_dc_apply. eauto.
+Qed.
+Lemma get_fd_readers s k : rstep_shape (readers s) (readers (fst (get_fd s k))).
+Proof.
+  unfold get_fd. destruct (R.step (fc s) (R.Get k)) as [c' [[i fl]|]]; simpl; [|left; reflexivity].
+  right. left. rewrite readers_fc_apply. eauto.
+Qed.
+Lemma get_open_readers s k d : rstep_shape (readers s) (readers (fst (get_open s k d))).
+Proof. unfold get_open. destruct (find (dir s) k); simpl; [right; left; eauto|left; reflexivity]. Qed.
+
+Lemma step_readers s o : rstep_shape (readers s) (readers (fst (step s o))).
+Proof.
+  destruct o; simpl.
+  - left. unfold do_add. destruct direct; [reflexivity|]. unfold take_buf.
+    destruct pick as [b|]; [destruct (existsb _ _)|]; reflexivity.
+  - left. unfold do_write. destruct (nth_error _ _) as [wr|]; [|reflexivity]. destruct (w_active wr); [|reflexivity].
+    destruct (w_buf wr); reflexivity.
+  - left. unfold do_commit. destruct (nth_error _ _) as [wr|]; [|reflexivity]. destruct (w_active wr); [|reflexivity].
+    destruct (w_buf wr) as [b|]; [|reflexivity].
+    destruct (R.step _ _) as [c' [[i added]|]]; [|reflexivity].
+    destruct added; simpl; rewrite readers_dc_apply; reflexivity.
+  - left. unfold do_pwrite. destruct (nth_error _ _) as [wr|]; [|reflexivity]. destruct (w_ps wr) as [|[|?] ? ?]; reflexivity.
+  - left. unfold do_pfail. destruct (nth_error _ _) as [wr|]; [|reflexivity]. destruct (w_ps wr) as [|[|?] ? ?]; reflexivity.
+  - left. unfold do_prename. destruct (nth_error _ _) as [wr|]; [|reflexivity]. destruct (w_ps wr) as [|[|[|?]] ? ?]; reflexivity.
+  - left. unfold do_pdone. destruct (nth_error _ _) as [wr|]; [|reflexivity]. destruct (w_ps wr) as [|[|[|[|?]]] ? ?]; try reflexivity.
+    unfold dc_release. rewrite readers_dc_apply. reflexivity.
+  - left. unfold do_abort. destruct (nth_error _ _) as [wr|]; [|reflexivity]. destruct (w_active wr); [|reflexivity].
+    destruct (w_buf wr); reflexivity.
+  - left. unfold do_closew. destruct (nth_error _ _); reflexivity.
+  - unfold do_get. destruct direct; [apply get_open_readers|].
+    destruct (is_hit _); [apply get_mem_readers|]. destruct (is_hit _); [apply get_fd_readers|apply get_open_readers].
+  - apply get_mem_readers.
+  - apply get_fd_readers.
+  - apply get_open_readers.
+  - left. reflexivity.
+  - unfold do_closer. destruct (nth_error (readers s) r) as [rd|] eqn:Hr; [|left; reflexivity].
+    destruct (r_open rd); [|left; reflexivity]. right. right. exists r, rd. split; [exact Hr|].
+    destruct (r_kind rd) as [b len h|f h|f [|]].
+    + unfold dc_release. rewrite readers_dc_apply. reflexivity.
+    + unfold fc_release. rewrite readers_fc_apply. reflexivity.
+    + unfold fd_put. destruct (R.step _ _) as [c1 [[j added]|]]; [|reflexivity].
+      unfold fc_release. rewrite readers_fc_apply. destruct added; [|rewrite close_fd_readers]; rewrite readers_fc_apply; reflexivity.
+    + rewrite close_fd_readers. reflexivity.
+  - left. reflexivity.
+Qed.
+
+Definition same_reader (rd rd' : reader) : Prop :=
+  r_key rd' = r_key rd /\ r_val rd' = r_val rd /\ r_kind rd' = r_kind rd /\ (r_open rd' = true -> r_open rd = true).
+
+Lemma reader_fixed os : forall s r rd, nth_error (readers s) r = Some rd ->
+  exists rd', nth_error (readers (exec s os)) r = Some rd' /\ same_reader rd rd'.
+Proof.
+  induction os as [|o os IH]; intros s r rd Hr; simpl.
+  - exists rd. split; [exact Hr|]. unfold same_reader. auto.
+  - assert (H1 : exists rd1, nth_error (readers (fst (step s o))) r = Some rd1 /\ same_reader rd rd1).
+    { destruct (step_readers s o) as [E|[(x & E)|(r0 & rd0 & H0 & E)]]; rewrite E.
+      - exists rd. split; [exact Hr|]. unfold same_reader. auto.
+      - exists rd. split; [|unfold same_reader; auto]. rewrite nth_error_app1; [exact Hr|]. eapply RP.nth_some_lt; eauto.
+      - destruct (Nat.eq_dec r r0) as [->|Hne].
+        + rewrite Hr in H0. inv H0. exists (rd_close rd0). split; [apply RP.nth_upd_eq; eapply RP.nth_some_lt; eauto|].
+          unfold same_reader. simpl. repeat split; auto. discriminate.
+        + exists rd. split; [|unfold same_reader; auto]. rewrite RP.nth_upd_ne by auto. exact Hr. }
+    destruct H1 as (rd1 & Hr1 & S1). destruct (IH _ _ _ Hr1) as (rd2 & Hr2 & S2).
+    exists rd2. split; [exact Hr2|]. unfold same_reader in *. destruct S1 as (A1 & A2 & A3 & A4). destruct S2 as (B1 & B2 & B3 & B4).
+    repeat split; try congruence. auto.
+Qed.
+
+Lemma exec_app s os1 os2 : exec s (os1 ++ os2) = exec (exec s os1) os2.
+Proof. unfold exec. apply fold_left_app. Qed.
+
+(* the full statement: from the moment a reader exists until its Close, every ReadAt returns the slice of ONE value,
+   fixed when the reader was created, which a writer had committed under the reader's key *)
+Lemma hit_fixed dcap fcap os1 os2 r rd :
+  let s1 := exec (init dcap fcap) os1 in
+  let s2 := exec s1 os2 in
+  nth_error (readers s1) r = Some rd ->
+  (exists rd2, nth_error (readers s2) r = Some rd2 /\ r_key rd2 = r_key rd /\ r_val rd2 = r_val rd) /\
+  (forall rd2, nth_error (readers s2) r = Some rd2 -> r_open rd2 = true ->
+     committed s1 (r_key rd) (r_val rd) /\ forall off n, read s2 r off n = OData (slice off n (r_val rd))).
+Proof.
+  intros s1 s2 Hr. destruct (reader_fixed os2 s1 r rd Hr) as (rd2 & Hr2 & Hk & Hv & _ & Hop). fold s2 in Hr2.
+  split; [exists rd2; auto|]. intros rd2' Hr2' Hop2. rewrite Hr2 in Hr2'. inv Hr2'.
+  split.
+  - apply (hit_is_committed dcap fcap os1 r rd Hr (Hop Hop2)).
+  - assert (E : s2 = exec (init dcap fcap) (os1 ++ os2)) by (unfold s2, s1; rewrite exec_app; reflexivity).
+    intros off n. rewrite <- Hv. rewrite E. apply (hit_is_committed dcap fcap (os1 ++ os2) r rd2'); [rewrite <- E; exact Hr2|exact Hop2].
+Qed.
+
+(* a lookup that reports a hit has created exactly one new open reader for the requested key; a miss creates none *)
+Lemma get_open_out s k d :
+  match snd (get_open s k d) with
+  | OHit => exists rd, readers (fst (get_open s k d)) = readers s ++ [rd] /\ r_key rd = k /\ r_open rd = true
+  | OMiss => fst (get_open s k d) = s
+  | _ => False
+  end.
+Proof. unfold get_open. destruct (find (dir s) k); simpl; eauto. Qed.
+Lemma get_mem_out s k :
+  match snd (get_mem s k) with
+  | OHit => exists rd, readers (fst (get_mem s k)) = readers s ++ [rd] /\ r_key rd = k /\ r_open rd = true
+  | OMiss => fst (get_mem s k) = s
+  | _ => False
+  end.
+Proof.
+  unfold get_mem. destruct (R.step (dc s) (R.Get k)) as [c' [[i fl]|]]; simpl; [|reflexivity].
+  rewrite readers_dc_apply. eauto.
+Qed.
+Lemma get_fd_out s k :
+  match snd (get_fd s k) with
+  | OHit => exists rd, readers (fst (get_fd s k)) = readers s ++ [rd] /\ r_key rd = k /\ r_open rd = true
+  | OMiss => fst (get_fd s k) = s
+  | _ => False
+  end.
+Proof.
+  unfold get_fd. destruct (R.step (fc s) (R.Get k)) as [c' [[i fl]|]]; simpl; [|reflexivity].
+  rewrite readers_fc_apply. eauto.
+Qed.
+
+Lemma get_out s k d :
+  match snd (step s (Get k d)) with
+  | OHit => exists rd, readers (fst (step s (Get k d))) = readers s ++ [rd] /\ r_key rd = k /\ r_open rd = true
+  | OMiss => fst (step s (Get k d)) = s
+  | _ => False
+  end.
+Proof.
+  simpl. unfold do_get. destruct d; [apply get_open_out|].
+  pose proof (get_mem_out s k) as H1. destruct (snd (get_mem s k)) eqn:E1; simpl; try contradiction; [|rewrite E1; exact H1].
+  pose proof (get_fd_out s k) as H2. destruct (snd (get_fd s k)) eqn:E2; simpl; try contradiction; [|rewrite E2; exact H2].
+  apply get_open_out.
 Qed.
